@@ -1,7 +1,8 @@
 (** C14, state level: the volume ledger of [transfer] ("C04 for transfers") and the volumes a successful
     [to_worklist] leaves in the stock trough, the diluent trough and the dilution plate. *)
 From Robo Require Import Prelude Str Wells Utils Labware Tips Records Partition Params Worklist EvoCmd
-  Program Dilution Invariants WellsProofs LabwareProofs PartitionProofs PlanProofs RefinementProofs DilutionProofs.
+  Program Dilution Invariants Mixing WellsProofs LabwareProofs PartitionProofs MixingProofs PlanProofs
+  RefinementProofs DilutionProofs.
 From Coq Require Import Lqa Permutation.
 #[local] Open Scope Q_scope.
 
@@ -205,15 +206,2243 @@ Proof.
     intro i. rewrite Hv', Hv1.
     rewrite (well_out_geom L1 L i _ Hg1), (well_in_geom L1 L i _ Hg1).
     change (steps_of (Step sw dw v :: acts)) with ((sw, dw, v) :: steps_of acts).
-    destruct (Nat.eqb_spec j ks) as [->|Hjs]; destruct (Nat.eqb_spec j kd) as [->|Hjd]; cbn [andb].
-    + rewrite well_out_cons, well_in_cons.
+    destruct (Nat.eqb_spec j ks) as [Ejs|Hjs]; destruct (Nat.eqb_spec j kd) as [Ejd|Hjd]; cbn [andb].
+    + rewrite well_out_cons, well_in_cons. subst ks kd.
       rewrite HLs in HL. injection HL as <-. rewrite HLd in HLs. injection HLs as <-.
       unfold idx_is. rewrite His, Hid. ring.
-    + rewrite well_out_cons.
+    + rewrite well_out_cons. subst ks.
       rewrite HLs in HL. injection HL as <-. unfold idx_is. rewrite His. ring.
-    + rewrite well_in_cons.
+    + rewrite well_in_cons. subst kd.
       rewrite HLd in HL. injection HL as <-. unfold idx_is. rewrite Hid. ring.
     + ring.
   - cbn [exec] in H. change (steps_of (Commit :: acts)) with (steps_of acts).
     exact (IH _ _ H (wf_set_wl _ _ Hwf)).
 Qed.
+
+(* ------------------------------------------------------------------------------------------ *)
+(** * transfer *)
+
+Lemma ledger_rel_sums ks kd T T' lws lws' :
+  (forall L i, well_out L i T == well_out L i T') -> (forall L i, well_in L i T == well_in L i T') ->
+  ledger_rel ks kd T lws lws' -> ledger_rel ks kd T' lws lws'.
+Proof.
+  intros Ho Hi (Hlen & H). split; [exact Hlen|]. intros j L HL.
+  destruct (H j L HL) as (L' & HL' & Hg & Hv). exists L'. split; [exact HL'|]. split; [exact Hg|].
+  intro i. rewrite Hv. destruct (j =? ks)%nat; destruct (j =? kd)%nat; rewrite ?Ho, ?Hi; reflexivity.
+Qed.
+
+Lemma ledger_rel_condense ks kd T lws s2 k n lab :
+  ledger_rel ks kd T lws (st_lw s2) -> ledger_rel ks kd T lws (st_lw (condense_at s2 k n lab)).
+Proof.
+  intros (Hlen & H). unfold condense_at.
+  destruct (nth_error (st_lw s2) k) as [Lk|] eqn:Ek; [|split; assumption].
+  cbn [set_lw st_lw]. split; [rewrite upd_length; exact Hlen|].
+  intros j L HL. destruct (H j L HL) as (L' & HL' & Hg & Hv).
+  destruct (Nat.eq_dec k j) as [->|Hne].
+  - rewrite Ek in HL'. injection HL' as <-.
+    destruct (condense_obs Lk n lab) as (_ & O2 & _ & _ & O5).
+    exists (condense_log Lk n lab).
+    split; [apply RefinementProofs.nth_error_upd_same; eapply nth_error_lt; exact Ek|].
+    split; [rewrite O2; exact Hg|].
+    intro i. unfold vol_at at 1. rewrite O5. exact (Hv i).
+  - exists L'. split; [rewrite nth_error_upd_other by exact Hne; exact HL'|]. split; [exact Hg|exact Hv].
+Qed.
+
+Lemma existsb_false_forall {A} (f : A -> bool) l : existsb f l = false -> forall x, In x l -> f x = false.
+Proof.
+  intros H x Hx. destruct (f x) eqn:E; [|reflexivity].
+  assert (C : existsb f l = true) by (apply existsb_exists; exists x; split; assumption). congruence.
+Qed.
+
+(** "C04 for transfers": an accepted transfer changes every well by what the requested triples say;
+    the worklist configuration is unchanged; the arguments were compatible *)
+Theorem transfer_ledger s ks swells kd dwells vols label ws pb kw s' :
+  transfer s ks swells kd dwells vols label ws pb kw = (s', None) -> wf_state s -> 0 < w_max (st_wl s) ->
+  ledger_rel ks kd (t_triples swells dwells vols) (st_lw s) (st_lw s') /\
+  same_cfg (st_wl s) (st_wl s') /\
+  length (t_src swells dwells vols) = length (t_dst swells dwells vols) /\
+  length (t_dst swells dwells vols) = length (t_vol swells dwells vols) /\
+  (forall v, In v (t_vol swells dwells vols) -> 0 <= v) /\
+  exists Ls Ld, nth_error (st_lw s) ks = Some Ls /\ nth_error (st_lw s) kd = Some Ld /\
+    (forall w, In w (t_src swells dwells vols) -> lw_index Ls w <> None) /\
+    (forall w, In w (t_dst swells dwells vols) -> lw_index Ld w <> None).
+Proof.
+  unfold transfer. cbv zeta. fold (t_n swells dwells vols).
+  fold (t_src swells dwells vols). fold (t_dst swells dwells vols). fold (t_vol swells dwells vols).
+  fold (t_triples swells dwells vols).
+  intros H Hwf Hm.
+  assert (Hdev : w_dev (st_wl s) <> BaseDev).
+  { intro E. rewrite E in H. discriminate. }
+  assert (H' : match nth_error (st_lw s) ks, nth_error (st_lw s) kd with
+               | Some Ls, Some Ld =>
+                   if negb ((length (t_src swells dwells vols) =? length (t_dst swells dwells vols))%nat
+                            && (length (t_dst swells dwells vols) =? length (t_vol swells dwells vols))%nat)
+                   then (s, Some EReject)
+                   else if existsb (fun v => Qltb v 0) (t_vol swells dwells vols) then (s, Some EReject)
+                   else if existsb (fun w => match lw_index Ls w with None => true | Some _ => false end)
+                                   (t_src swells dwells vols)
+                           || existsb (fun w => match lw_index Ld w with None => true | Some _ => false end)
+                                      (t_dst swells dwells vols)
+                   then (s, Some EReject)
+                   else
+                     match optimize_partition_by (is_trough (lw_geom Ls)) (is_trough (lw_geom Ld)) pb with
+                     | Err e => (s, Some EReject)
+                     | Ok mode =>
+                         match comment (st_wl s) label with
+                         | (w, Some e) => (set_wl s w, Some e)
+                         | (w, None) =>
+                             let triples := t_triples swells dwells vols in
+                             let m := w_max w in
+                             let acts := plan (w_autosplit w) m mode triples in
+                             match exec (set_wl s w) ks kd acts ws kw with
+                             | (s', Some e) => (s', Some e)
+                             | (s', None) =>
+                                 let lab := lvh_label label (lvh_extra (w_autosplit w) m triples) in
+                                 let n := n_steps acts in
+                                 if (ks =? kd)%nat then (condense_at s' ks (2 * n) lab, None)
+                                 else (condense_at (condense_at s' ks n lab) kd n lab, None)
+                             end
+                         end
+                     end
+               | _, _ => (s, Some EReject)
+               end = (s', None)).
+  { destruct (w_dev (st_wl s)); [exact H|exact H|congruence]. }
+  clear H. cbv zeta in H'.
+  destruct (nth_error (st_lw s) ks) as [Ls|] eqn:Eks; [|discriminate].
+  destruct (nth_error (st_lw s) kd) as [Ld|] eqn:Ekd; [|discriminate].
+  match type of H' with (if ?c then _ else _) = _ => destruct c eqn:E1; [discriminate|] end.
+  match type of H' with (if ?c then _ else _) = _ => destruct c eqn:E2; [discriminate|] end.
+  match type of H' with (if ?c then _ else _) = _ => destruct c eqn:E3; [discriminate|] end.
+  destruct (optimize_partition_by (is_trough (lw_geom Ls)) (is_trough (lw_geom Ld)) pb)
+    as [mode|eo] eqn:Eo; [|discriminate].
+  destruct (comment (st_wl s) label) as [w oc] eqn:Ec.
+  pose proof (comment_cfg _ _ _ _ Ec) as HC.
+  destruct oc as [ec|]; [discriminate|].
+  match type of H' with context [exec ?s0 ?k1 ?k2 ?acts ?w1 ?w2] =>
+    destruct (exec s0 k1 k2 acts w1 w2) as [s2 oe] eqn:Ee end.
+  destruct oe as [ee|]; [discriminate|].
+  apply negb_false_iff, andb_true_iff in E1. destruct E1 as [E1a E1b].
+  apply Nat.eqb_eq in E1a. apply Nat.eqb_eq in E1b.
+  apply orb_false_iff in E3. destruct E3 as [E3a E3b].
+  assert (Hnn : forall v, In v (t_vol swells dwells vols) -> 0 <= v).
+  { intros v Hv. apply (existsb_false_forall _ _ E2) in Hv. apply Qltb_false. exact Hv. }
+  assert (Hall : Forall (fun t : triple => 0 <= snd t) (t_triples swells dwells vols)).
+  { apply Forall_forall. intros [sd v] Ht. apply zip_In in Ht. cbn [snd]. apply Hnn. exact (proj2 Ht). }
+  assert (Hmw : 0 < w_max w) by (rewrite (proj1 HC); exact Hm).
+  pose proof (exec_ledger _ _ _ _ _ _ _ Ee (wf_set_wl _ _ Hwf)) as Hled. cbn [set_wl st_lw] in Hled.
+  apply (ledger_rel_sums _ _ _ (t_triples swells dwells vols)) in Hled.
+  2: { intros L i. rewrite !well_out_gsum. apply gsum_plan; assumption. }
+  2: { intros L i. rewrite !well_in_gsum. apply gsum_plan; assumption. }
+  assert (Hcfg2 : same_cfg (st_wl s) (st_wl s2)).
+  { apply (same_cfg_trans _ w); [exact HC|].
+    apply exec_records in Ee; [|intros sw0 dw0 v0; apply plan_steps_pos].
+    exact (proj1 (proj2 Ee)). }
+  split; [|split; [|split; [exact E1a|split; [exact E1b|split; [exact Hnn|]]]]].
+  - destruct (ks =? kd)%nat; injection H' as <-; repeat apply ledger_rel_condense; exact Hled.
+  - destruct (ks =? kd)%nat; injection H' as <-; rewrite ?condense_at_wl; exact Hcfg2.
+  - exists Ls, Ld. split; [reflexivity|]. split; [reflexivity|]. split.
+    + intros x Hx. apply (existsb_false_forall _ _ E3a) in Hx. destruct (lw_index Ls x); [discriminate|discriminate].
+    + intros x Hx. apply (existsb_false_forall _ _ E3b) in Hx. destruct (lw_index Ld x); [discriminate|discriminate].
+Qed.
+
+(* ------------------------------------------------------------------------------------------ *)
+(** * a run of transfers and commits *)
+
+Definition tc_op (o : op) : Prop :=
+  match o with OTransfer _ _ _ _ _ _ _ _ _ | OCommit => True | _ => False end.
+
+(** net volume an operation adds to the well with flat index [i] of labware number [j] (= [L]) *)
+Definition op_delta (L : labware) (j : nat) (o : op) (i : nat) : Q :=
+  match o with
+  | OTransfer ks sw kd dw vs _ _ _ _ =>
+      (if (j =? kd)%nat then well_in L i (t_triples sw dw vs) else 0)
+      - (if (j =? ks)%nat then well_out L i (t_triples sw dw vs) else 0)
+  | _ => 0
+  end.
+Definition ops_delta (L : labware) (j : nat) (ops : list op) (i : nat) : Q :=
+  Qsum (map (fun o => op_delta L j o i) ops).
+
+(** the arguments of an accepted transfer are compatible with the labware *)
+Definition op_args_ok (lws : list labware) (o : op) : Prop :=
+  match o with
+  | OTransfer ks sw kd dw vs _ _ _ _ =>
+      length (t_src sw dw vs) = length (t_dst sw dw vs) /\
+      length (t_dst sw dw vs) = length (t_vol sw dw vs) /\
+      (forall v, In v (t_vol sw dw vs) -> 0 <= v) /\
+      exists Ls Ld, nth_error lws ks = Some Ls /\ nth_error lws kd = Some Ld /\
+        (forall w, In w (t_src sw dw vs) -> lw_index Ls w <> None) /\
+        (forall w, In w (t_dst sw dw vs) -> lw_index Ld w <> None)
+  | _ => True
+  end.
+
+Lemma ops_delta_cons L j o ops i : ops_delta L j (o :: ops) i == op_delta L j o i + ops_delta L j ops i.
+Proof. unfold ops_delta. cbn [map]. apply Qsum_cons. Qed.
+
+Lemma ops_delta_app L j l1 l2 i : ops_delta L j (l1 ++ l2) i == ops_delta L j l1 i + ops_delta L j l2 i.
+Proof. unfold ops_delta. rewrite map_app. apply Qsum_app'. Qed.
+
+Lemma ops_delta_nil L j i : ops_delta L j [] i == 0.
+Proof. reflexivity. Qed.
+
+Lemma op_delta_geom L1 L2 j o i : lw_geom L1 = lw_geom L2 -> op_delta L1 j o i = op_delta L2 j o i.
+Proof.
+  intro H. destruct o; try reflexivity. cbn [op_delta].
+  rewrite (well_in_geom L1 L2 i _ H), (well_out_geom L1 L2 i _ H). reflexivity.
+Qed.
+
+Lemma ops_delta_geom L1 L2 j ops i : lw_geom L1 = lw_geom L2 -> ops_delta L1 j ops i = ops_delta L2 j ops i.
+Proof.
+  intro H. unfold ops_delta. f_equal. apply map_ext. intro o. apply op_delta_geom. exact H.
+Qed.
+
+(** the labware of [lws'] have the geometries of those of [lws] *)
+Definition same_geoms (lws lws' : list labware) : Prop :=
+  length lws' = length lws /\
+  forall j L, nth_error lws j = Some L -> exists L', nth_error lws' j = Some L' /\ lw_geom L' = lw_geom L.
+
+Lemma same_geoms_back lws lws' j L' : same_geoms lws lws' -> nth_error lws' j = Some L' ->
+  exists L, nth_error lws j = Some L /\ lw_geom L' = lw_geom L.
+Proof.
+  intros (Hlen & H) HL'. pose proof (nth_error_lt _ _ _ HL') as Hj. rewrite Hlen in Hj.
+  destruct (nth_error lws j) as [L|] eqn:E; [|apply nth_error_None in E; lia].
+  exists L. split; [reflexivity|]. destruct (H j L E) as (L2 & HL2 & Hg). rewrite HL' in HL2.
+  injection HL2 as <-. exact Hg.
+Qed.
+
+Lemma op_args_ok_back lws lws' o : same_geoms lws lws' -> op_args_ok lws' o -> op_args_ok lws o.
+Proof.
+  intros Hsg. destruct o; try (intros _; exact I). cbn [op_args_ok].
+  intros (H1 & H2 & H3 & Ls' & Ld' & HLs & HLd & Hs & Hd).
+  destruct (same_geoms_back _ _ _ _ Hsg HLs) as (Ls & HLs0 & Hgs).
+  destruct (same_geoms_back _ _ _ _ Hsg HLd) as (Ld & HLd0 & Hgd).
+  split; [exact H1|]. split; [exact H2|]. split; [exact H3|].
+  exists Ls, Ld. split; [exact HLs0|]. split; [exact HLd0|]. split.
+  - intros w Hw. rewrite <- (lw_index_geom Ls' Ls w Hgs). apply Hs. exact Hw.
+  - intros w Hw. rewrite <- (lw_index_geom Ld' Ld w Hgd). apply Hd. exact Hw.
+Qed.
+
+Lemma run_ops_ledger ops : forall s s',
+  Forall tc_op ops -> run_ops s ops = (s', None) -> wf_state s -> 0 < w_max (st_wl s) ->
+  wf_state s' /\ w_max (st_wl s') = w_max (st_wl s) /\
+  Forall (op_args_ok (st_lw s)) ops /\
+  length (st_lw s') = length (st_lw s) /\
+  forall j L, nth_error (st_lw s) j = Some L ->
+    exists L', nth_error (st_lw s') j = Some L' /\ lw_geom L' = lw_geom L /\
+      forall i, vol_at L' i == vol_at L i + ops_delta L j ops i.
+Proof.
+  induction ops as [|o ops IH]; intros s s' Htc H Hwf Hm.
+  - cbn [run_ops] in H. injection H as <-. split; [exact Hwf|]. split; [reflexivity|].
+    split; [constructor|]. split; [reflexivity|].
+    intros j L HL. exists L. split; [exact HL|]. split; [reflexivity|]. intro i. rewrite ops_delta_nil. ring.
+  - cbn [run_ops] in H. destruct (step s o) as [s1 [e|]] eqn:E; [discriminate|].
+    inversion Htc as [|o' ops' Ho Hops]; subst o' ops'.
+    pose proof (step_wf' _ _ _ _ E Hwf) as Hwf1.
+    assert (Hstep : w_max (st_wl s1) = w_max (st_wl s) /\ op_args_ok (st_lw s) o /\
+                    length (st_lw s1) = length (st_lw s) /\
+                    forall j L, nth_error (st_lw s) j = Some L ->
+                      exists L1, nth_error (st_lw s1) j = Some L1 /\ lw_geom L1 = lw_geom L /\
+                        forall i, vol_at L1 i == vol_at L i + op_delta L j o i).
+    { destruct o; try (destruct Ho).
+      - cbn [step] in E.
+        destruct (transfer_ledger _ _ _ _ _ _ _ _ _ _ _ E Hwf Hm)
+          as ((Hlen & Hled) & Hcfg & A1 & A2 & A3 & A4).
+        split; [exact (proj1 Hcfg)|]. split; [cbn [op_args_ok]; auto|]. split; [exact Hlen|].
+        intros j L HL. destruct (Hled j L HL) as (L1 & HL1 & Hg & Hv).
+        exists L1. split; [exact HL1|]. split; [exact Hg|]. intro i. rewrite Hv. cbn [op_delta]. ring.
+      - cbn [step] in E. unfold on_wl, commit in E. injection E as <-.
+        split; [reflexivity|]. split; [exact I|]. split; [reflexivity|].
+        intros j L HL. exists L. split; [exact HL|]. split; [reflexivity|].
+        intro i. cbn [op_delta]. ring. }
+    destruct Hstep as (Hm1 & Hok & Hlen1 & Hstep).
+    assert (Hm1' : 0 < w_max (st_wl s1)) by (rewrite Hm1; exact Hm).
+    destruct (IH _ _ Hops H Hwf1 Hm1') as (Hwf' & Hm' & Hoks & Hlen' & Hrest).
+    assert (Hsg : same_geoms (st_lw s) (st_lw s1)).
+    { split; [exact Hlen1|]. intros j L HL. destruct (Hstep j L HL) as (L1 & HL1 & Hg & _).
+      exists L1. split; assumption. }
+    split; [exact Hwf'|]. split; [rewrite Hm'; exact Hm1|]. split.
+    { constructor; [exact Hok|]. eapply Forall_impl; [|exact Hoks].
+      intros o' Ho'. eapply op_args_ok_back; eassumption. }
+    split; [rewrite Hlen'; exact Hlen1|].
+    intros j L HL. destruct (Hstep j L HL) as (L1 & HL1 & Hg1 & Hv1).
+    destruct (Hrest j L1 HL1) as (L' & HL' & Hg' & Hv').
+    exists L'. split; [exact HL'|]. split; [rewrite Hg'; exact Hg1|].
+    intro i. rewrite Hv', Hv1, ops_delta_cons, (ops_delta_geom L1 L j ops i Hg1). ring.
+Qed.
+
+(* ------------------------------------------------------------------------------------------ *)
+(** * sums over index ranges *)
+
+Lemma Qsum_zero {A} (f : A -> Q) l : (forall x, In x l -> f x == 0) -> Qsum (map f l) == 0.
+Proof.
+  induction l as [|x l IH]; intro H; [reflexivity|].
+  cbn [map]. rewrite Qsum_cons, (H x (or_introl eq_refl)), IH; [ring|].
+  intros y Hy. apply H. right. exact Hy.
+Qed.
+
+Lemma Qsum_indicator (g : nat -> Q) r n : forall a,
+  Qsum (map (fun k => if (k =? r)%nat then g k else 0) (seq a n)) ==
+  if ((a <=? r) && (r <? a + n))%nat then g r else 0.
+Proof.
+  induction n as [|n IH]; intro a.
+  - cbn [seq map]. destruct (a <=? r)%nat eqn:E1; cbn [andb]; [|reflexivity].
+    destruct (r <? a + 0)%nat eqn:E2; [|reflexivity].
+    apply Nat.leb_le in E1. apply Nat.ltb_lt in E2. lia.
+  - cbn [seq map]. rewrite Qsum_cons, IH.
+    destruct (Nat.eqb_spec a r) as [->|Hne].
+    + assert (E1 : (S r <=? r)%nat = false) by (apply Nat.leb_gt; lia).
+      assert (E2 : (r <=? r)%nat = true) by (apply Nat.leb_le; lia).
+      assert (E3 : (r <? r + S n)%nat = true) by (apply Nat.ltb_lt; lia).
+      rewrite E1, E2, E3. cbn [andb]. ring.
+    + assert (E : (S a <=? r)%nat = (a <=? r)%nat).
+      { destruct (a <=? r)%nat eqn:E1; [apply Nat.leb_le in E1; apply Nat.leb_le; lia|].
+        apply Nat.leb_gt in E1. apply Nat.leb_gt. lia. }
+      rewrite E. replace (S a + n)%nat with (a + S n)%nat by lia.
+      destruct ((a <=? r) && (r <? a + S n))%nat; ring.
+Qed.
+
+Lemma Qsum_indicator0 (g : nat -> Q) r n : (r < n)%nat ->
+  Qsum (map (fun k => if (k =? r)%nat then g k else 0) (seq 0 n)) == g r.
+Proof.
+  intro H. rewrite Qsum_indicator. cbn [Nat.leb andb Nat.add].
+  apply Nat.ltb_lt in H. rewrite H. reflexivity.
+Qed.
+
+Lemma Qsum_filter_if {A} (f : A -> bool) (g : A -> Q) l :
+  Qsum (map g (filter f l)) == Qsum (map (fun x => if f x then g x else 0) l).
+Proof.
+  induction l as [|x l IH]; [reflexivity|]. cbn [filter map]. rewrite Qsum_cons.
+  destruct (f x); [cbn [map]; rewrite Qsum_cons, IH; reflexivity|rewrite IH; ring].
+Qed.
+
+Lemma list_as_seq {A} (d : A) (l : list A) : l = map (fun m => nth m l d) (seq 0 (length l)).
+Proof.
+  apply (nth_ext _ _ d d); [rewrite map_length, seq_length; reflexivity|].
+  intros n Hn. rewrite (nth_map_lt _ _ 0%nat) by (rewrite seq_length; exact Hn).
+  rewrite seq_nth by exact Hn. reflexivity.
+Qed.
+
+(** a sum over the instructions of a plan, selected by their column *)
+Lemma Qsum_by_col (l : list instr) (f : instr -> Q) c :
+  (forall m, (m < length l)%nat -> i_col (nth m l dinstr) = m) -> (c < length l)%nat ->
+  Qsum (map (fun x => if (i_col x =? c)%nat then f x else 0) l) == f (nth c l dinstr).
+Proof.
+  intros Hcol Hc. rewrite (list_as_seq dinstr l) at 1. rewrite map_map.
+  rewrite (Qsum_map_ext _ (fun m => if (m =? c)%nat then f (nth m l dinstr) else 0)).
+  - apply Qsum_indicator0. exact Hc.
+  - intros m Hm. apply in_seq in Hm. rewrite Hcol by lia. reflexivity.
+Qed.
+
+Lemma zip3_seq (A B : list string) (V : list Q) : forall n,
+  length A = n -> length B = n -> length V = n ->
+  zip (zip A B) V = map (fun k => (nth k A EmptyString, nth k B EmptyString, nth k V 0)) (seq 0 n).
+Proof.
+  revert B V. induction A as [|x A IH]; intros B V n HA HB HV.
+  - cbn [length] in HA. subst n. reflexivity.
+  - destruct B as [|y B]; [cbn [length] in *; lia|]. destruct V as [|v V]; [cbn [length] in *; lia|].
+    destruct n as [|n]; [cbn [length] in HA; lia|]. cbn [length] in HA, HB, HV.
+    cbn [zip seq map nth]. f_equal. rewrite <- seq_shift, map_map.
+    rewrite (IH B V n) by lia. reflexivity.
+Qed.
+
+Lemma gsum_map {A} q (f : A -> triple) l :
+  gsum q (map f l) == Qsum (map (fun k => if q (fst (f k)) then snd (f k) else 0) l).
+Proof.
+  induction l as [|x l IH]; [reflexivity|]. cbn [map]. rewrite gsum_cons, Qsum_cons, IH. reflexivity.
+Qed.
+
+Lemma gsum_zip3 q (A B : list string) (V : list Q) n :
+  length A = n -> length B = n -> length V = n ->
+  gsum q (zip (zip A B) V) ==
+  Qsum (map (fun k => if q (nth k A EmptyString, nth k B EmptyString) then nth k V 0 else 0) (seq 0 n)).
+Proof. intros HA HB HV. rewrite (zip3_seq A B V n HA HB HV), gsum_map. reflexivity. Qed.
+
+Lemma nth_repeat_lt {A} (x d : A) n r : (r < n)%nat -> nth r (repeat x n) d = x.
+Proof.
+  revert r. induction n as [|n IH]; intros r Hr; [lia|].
+  destruct r as [|r]; [reflexivity|]. cbn [repeat nth]. apply IH. lia.
+Qed.
+
+Lemma In_broadcast {A} (l : list A) n x : In x (broadcast l n) -> In x l.
+Proof.
+  destruct l as [|y [|z t]]; cbn [broadcast]; intro H; try exact H.
+  apply repeat_spec in H. subst x. left. reflexivity.
+Qed.
+
+(** every source well is the real well [k]: the whole volume leaves well [k] *)
+Lemma well_out_const L i k (A B : list string) : forall (V : list Q),
+  (forall w, In w A -> lw_index L w = Some k) -> length A = length B -> length B = length V ->
+  well_out L i (zip (zip A B) V) == if (k =? i)%nat then Qsum V else 0.
+Proof.
+  revert B. induction A as [|x A IH]; intros B V Hk HA HB.
+  - destruct B; [|cbn [length] in HA; lia]. destruct V; [|cbn [length] in HB; lia].
+    cbn [zip]. destruct (k =? i)%nat; reflexivity.
+  - destruct B as [|y B]; [cbn [length] in HA; lia|]. destruct V as [|v V]; [cbn [length] in HB; lia|].
+    cbn [zip]. rewrite well_out_cons, IH.
+    + unfold idx_is. rewrite (Hk x (or_introl eq_refl)). destruct (k =? i)%nat; [rewrite Qsum_cons; reflexivity|ring].
+    + intros w Hw. apply Hk. right. exact Hw.
+    + cbn [length] in HA. lia.
+    + cbn [length] in HB. lia.
+Qed.
+
+(** source and destination well coincide in every triple: nothing changes *)
+Lemma well_in_out_diag L i (T : list triple) :
+  (forall t, In t T -> fst (fst t) = snd (fst t)) -> well_in L i T == well_out L i T.
+Proof.
+  intro H. rewrite well_in_gsum, well_out_gsum. apply gsum_ext. intros t Ht.
+  cbn beta. rewrite (H t Ht). reflexivity.
+Qed.
+
+Lemma zip_diag {A} (l : list A) a b : In (a, b) (zip l l) -> a = b.
+Proof.
+  induction l as [|x l IH]; cbn [zip In]; [intros []|]. intros [H|H]; [congruence|exact (IH H)].
+Qed.
+
+(* ------------------------------------------------------------------------------------------ *)
+(** * wells of plates and troughs *)
+
+Lemma plate_lw_index P r c :
+  g_vrows (lw_geom P) = None -> (r < n_row_ids (lw_geom P))%nat -> (c < g_cols (lw_geom P))%nat ->
+  lw_index P (well_id r c) = Some (r * g_cols (lw_geom P) + c)%nat.
+Proof.
+  intros Hv Hr Hc. unfold lw_index. rewrite well_index_ok by assumption. rewrite Hv. reflexivity.
+Qed.
+
+Lemma plate_idx_is P r c r' c' :
+  g_vrows (lw_geom P) = None -> (r' < n_row_ids (lw_geom P))%nat ->
+  (c' < g_cols (lw_geom P))%nat -> (c < g_cols (lw_geom P))%nat ->
+  idx_is P (r * g_cols (lw_geom P) + c) (well_id r' c') = ((r' =? r) && (c' =? c))%nat.
+Proof.
+  intros Hv Hr' Hc' Hc. unfold idx_is. rewrite plate_lw_index by assumption.
+  set (g := g_cols (lw_geom P)) in *.
+  destruct (Nat.eqb_spec (r' * g + c') (r * g + c)) as [E|E].
+  - rewrite (Nat.mul_comm r' g), (Nat.mul_comm r g) in E.
+    destruct (Nat.div_mod_unique g r' r c' c Hc' Hc E) as [-> ->].
+    rewrite !Nat.eqb_refl. reflexivity.
+  - destruct (Nat.eqb_spec r' r) as [->|Hr]; [|reflexivity].
+    destruct (Nat.eqb_spec c' c) as [->|Hcc]; [congruence|reflexivity].
+Qed.
+
+(** in a trough every row letter of a column is the same real well *)
+Lemma trough_lw_index L v r c :
+  g_vrows (lw_geom L) = Some v -> (r < n_row_ids (lw_geom L))%nat ->
+  lw_index L (well_id r c) <> None -> lw_index L (well_id r c) = Some c /\ (c < g_cols (lw_geom L))%nat.
+Proof.
+  intros Hv Hr Hne. unfold lw_index in *.
+  destruct (well_index (lw_geom L) (well_id r c)) as [rc|] eqn:E; [|congruence].
+  destruct (well_index_domain _ _ _ E) as (r' & c' & Hr' & Hc' & Hid & _).
+  pose proof (n_row_ids_le (lw_geom L)) as Hle.
+  destruct (well_id_injective r c r' c' ltac:(lia) ltac:(lia) Hid) as [_ <-].
+  rewrite well_index_ok in E by assumption. rewrite Hv in E. injection E as <-.
+  split; [reflexivity|exact Hc'].
+Qed.
+
+Lemma column_wells_nth R col k : (k < R)%nat -> nth k (column_wells R col) EmptyString = well_id k col.
+Proof.
+  intro Hk. unfold column_wells. rewrite (nth_map_lt _ _ 0%nat) by (rewrite seq_length; exact Hk).
+  rewrite seq_nth by exact Hk. reflexivity.
+Qed.
+
+Lemma cycle_wells_In n l w : In w (cycle_wells n l) -> In w l.
+Proof.
+  unfold cycle_wells. intro H. apply firstn_In in H. apply in_concat in H.
+  destruct H as (x & Hx & Hw). apply repeat_spec in Hx. subst x. exact Hw.
+Qed.
+
+Lemma concat_repeat_length {A} (l : list A) k : length (concat (repeat l k)) = (k * length l)%nat.
+Proof. induction k as [|k IH]; [reflexivity|]. cbn [repeat concat]. rewrite app_length, IH. lia. Qed.
+
+Lemma cycle_wells_length n l : l <> [] -> length (cycle_wells n l) = n.
+Proof.
+  intro Hl. unfold cycle_wells. apply firstn_length_le. rewrite concat_repeat_length.
+  assert (Hlen : length l <> 0%nat) by (destruct l; [congruence|discriminate]).
+  pose proof (Nat.mul_succ_div_gt n (length l) Hlen) as H. lia.
+Qed.
+
+Lemma trough_column_wells_In g col w : In w (trough_column_wells g col) ->
+  exists r, (r < n_row_ids g)%nat /\ w = well_id r col.
+Proof.
+  unfold trough_column_wells. intro H. apply in_map_iff in H. destruct H as (r & <- & Hr).
+  apply in_seq in Hr. exists r. split; [lia|reflexivity].
+Qed.
+
+Lemma broadcast_len {A} (l : list A) n : length l = n -> broadcast l n = l.
+Proof. intros <-. apply broadcast_self. Qed.
+
+Lemma t_triples_A1 sw dw vs n : length sw = n -> length dw = n -> length vs = n ->
+  t_triples (A1 sw) (A1 dw) (A1 vs) = zip (zip sw dw) vs.
+Proof.
+  intros H1 H2 H3. unfold t_triples, t_src, t_dst, t_vol, t_n. cbn [flattenF].
+  rewrite H1, H2, H3, !Nat.max_id, !broadcast_len by assumption. reflexivity.
+Qed.
+
+Lemma t_triples_A1_A0 sw dw v n : (1 <= n)%nat -> length sw = n -> length dw = n ->
+  t_triples (A1 sw) (A1 dw) (A0 v) = zip (zip sw dw) (repeat v n).
+Proof.
+  intros Hn H1 H2. unfold t_triples, t_src, t_dst, t_vol, t_n. cbn [flattenF length].
+  rewrite H1, H2. replace (Nat.max n (Nat.max n 1)) with n by lia.
+  rewrite !broadcast_len by assumption. reflexivity.
+Qed.
+
+Lemma t_triples_diag sw vs t : In t (t_triples sw sw vs) -> fst (fst t) = snd (fst t).
+Proof.
+  unfold t_triples. destruct t as [[x y] v]. intro H. apply zip_In in H. destruct H as [H _].
+  cbn [fst snd]. unfold t_src, t_dst in H. exact (zip_diag _ _ _ H).
+Qed.
+
+(* ------------------------------------------------------------------------------------------ *)
+(** * what the transfers of one instruction do to a well of the plate *)
+
+Section PlateWell.
+Variables (P : labware) (R r c : nat).
+Hypothesis HPv : g_vrows (lw_geom P) = None.
+Hypothesis HR : (R <= n_row_ids (lw_geom P))%nat.
+Hypothesis Hr : (r < R)%nat.
+Hypothesis Hc : (c < g_cols (lw_geom P))%nat.
+
+Definition pidx : nat := (r * g_cols (lw_geom P) + c)%nat.
+
+Lemma plate_col_sum (V : list Q) col : (col < g_cols (lw_geom P))%nat ->
+  Qsum (map (fun k => if idx_is P pidx (well_id k col) then nth k V 0 else 0) (seq 0 R)) ==
+  if (col =? c)%nat then nth r V 0 else 0.
+Proof.
+  intro Hcol.
+  rewrite (Qsum_map_ext _ (fun k => if (k =? r)%nat then (if (col =? c)%nat then nth k V 0 else 0) else 0)).
+  - rewrite Qsum_indicator0 by exact Hr. reflexivity.
+  - intros k Hk. apply in_seq in Hk. unfold pidx. rewrite plate_idx_is by (assumption || lia).
+    destruct (k =? r)%nat; destruct (col =? c)%nat; reflexivity.
+Qed.
+
+Lemma well_in_plate_col (A : list string) (V : list Q) col :
+  length A = R -> length V = R -> (col < g_cols (lw_geom P))%nat ->
+  well_in P pidx (zip (zip A (column_wells R col)) V) == if (col =? c)%nat then nth r V 0 else 0.
+Proof.
+  intros HA HV Hcol. rewrite well_in_gsum, (gsum_zip3 _ A (column_wells R col) V R HA (column_wells_length R col) HV).
+  cbn [snd]. rewrite <- (plate_col_sum V col Hcol). apply Qsum_map_ext.
+  intros k Hk. apply in_seq in Hk. rewrite column_wells_nth by lia. reflexivity.
+Qed.
+
+Lemma well_out_plate_col (B : list string) (V : list Q) col :
+  length B = R -> length V = R -> (col < g_cols (lw_geom P))%nat ->
+  well_out P pidx (zip (zip (column_wells R col) B) V) == if (col =? c)%nat then nth r V 0 else 0.
+Proof.
+  intros HB HV Hcol. rewrite well_out_gsum, (gsum_zip3 _ (column_wells R col) B V R (column_wells_length R col) HB HV).
+  cbn [fst]. rewrite <- (plate_col_sum V col Hcol). apply Qsum_map_ext.
+  intros k Hk. apply in_seq in Hk. rewrite column_wells_nth by lia. reflexivity.
+Qed.
+
+End PlateWell.
+
+Lemma nth_inject r l : nth r (map inject_Z l) 0 = inject_Z (nth r l 0%Z).
+Proof. exact (map_nth inject_Z l 0%Z r). Qed.
+
+Lemma ops_delta_flat_map {A} L k (f : A -> list op) l i :
+  ops_delta L k (flat_map f l) i == Qsum (map (fun x => ops_delta L k (f x) i) l).
+Proof.
+  induction l as [|x l IH]; [reflexivity|].
+  cbn [flat_map map]. rewrite ops_delta_app, Qsum_cons, IH. reflexivity.
+Qed.
+
+Lemma Qsum_minus {A} (f g : A -> Q) l :
+  Qsum (map (fun x => f x - g x) l) == Qsum (map f l) - Qsum (map g l).
+Proof.
+  induction l as [|x l IH]; [unfold Qsum; cbn [map fold_right]; ring|].
+  cbn [map]. rewrite !Qsum_cons, IH. ring.
+Qed.
+
+Lemma Qsum_if_const {A} (b : bool) (h : A -> Q) l :
+  Qsum (map (fun x => if b then h x else 0) l) == if b then Qsum (map h l) else 0.
+Proof. destruct b; [reflexivity|]. apply Qsum_zero. intros x _. reflexivity. Qed.
+
+Lemma drawn_Qsum p k r :
+  inject_Z (drawn p k r) ==
+  Qsum (map (fun j => inject_Z (nth r (i_vols j) 0%Z)) (filter (feeds k) (dp_instr p))).
+Proof.
+  unfold drawn. rewrite <- Qsum_inject, map_map. reflexivity.
+Qed.
+
+Section InstrPlate.
+Variables (a : twl_args) (p : dplan) (gs gd : geom) (P : labware) (r c : nat).
+Hypothesis HPv : g_vrows (lw_geom P) = None.
+Hypothesis HR : (tw_R a <= n_row_ids (lw_geom P))%nat.
+Hypothesis Hr : (r < tw_R a)%nat.
+Hypothesis Hc : (c < g_cols (lw_geom P))%nat.
+Hypothesis Hps : tw_plate a <> tw_stock a.
+Hypothesis Hpd : tw_plate a <> tw_diluent a.
+Hypothesis Hdest : forall d, tw_dest a = Some d -> d <> tw_plate a.
+Hypothesis Hgs : trough_column_wells gs (tw_stock_column a) <> [].
+Hypothesis Hgd : trough_column_wells gd (tw_diluent_column a) <> [].
+
+Let i := pidx P r c.
+Let pl := tw_plate a.
+
+Lemma stock_op_plate x : length (i_vols x) = tw_R a -> (i_col x < g_cols (lw_geom P))%nat ->
+  op_delta P pl (stock_op a gs x) i == if (i_col x =? c)%nat then inject_Z (nth r (i_vols x) 0%Z) else 0.
+Proof.
+  intros Hlen Hcol. unfold stock_op, col_wells, pl. cbn [op_delta]. rewrite Nat.eqb_refl.
+  assert (E : (tw_plate a =? tw_stock a)%nat = false) by (apply Nat.eqb_neq; exact Hps). rewrite E.
+  rewrite (t_triples_A1 _ _ _ (tw_R a));
+    [|apply cycle_wells_length; exact Hgs|apply column_wells_length|rewrite map_length; exact Hlen].
+  unfold i. rewrite well_in_plate_col;
+    [|assumption|assumption|assumption|assumption|apply cycle_wells_length; exact Hgs
+     |rewrite map_length; exact Hlen|exact Hcol].
+  rewrite nth_inject. destruct (i_col x =? c)%nat; ring.
+Qed.
+
+Lemma dilute_op_plate x : length (i_vols x) = tw_R a -> (i_col x < g_cols (lw_geom P))%nat ->
+  op_delta P pl (dilute_op a p gd x) i ==
+  if (i_col x =? c)%nat then vm_of p x - inject_Z (nth r (i_vols x) 0%Z) else 0.
+Proof.
+  intros Hlen Hcol. unfold dilute_op, col_wells, pl. cbn [op_delta]. rewrite Nat.eqb_refl.
+  assert (E : (tw_plate a =? tw_diluent a)%nat = false) by (apply Nat.eqb_neq; exact Hpd). rewrite E.
+  rewrite (t_triples_A1 _ _ _ (tw_R a));
+    [|apply cycle_wells_length; exact Hgd|apply column_wells_length|rewrite !map_length; exact Hlen].
+  unfold i. rewrite well_in_plate_col;
+    [|assumption|assumption|assumption|assumption|apply cycle_wells_length; exact Hgd
+     |rewrite !map_length; exact Hlen|exact Hcol].
+  destruct (i_col x =? c)%nat; [|ring].
+  rewrite (nth_map_lt _ _ 0) by (rewrite map_length, Hlen; exact Hr).
+  rewrite Qred_correct, nth_inject. ring.
+Qed.
+
+Lemma mix_op_plate wm x ws : op_delta P pl (mix_op a p wm x ws) i == 0.
+Proof.
+  unfold mix_op, pl. cbn [op_delta]. rewrite Nat.eqb_refl.
+  rewrite well_in_out_diag; [ring|]. intros t Ht. exact (t_triples_diag _ _ _ Ht).
+Qed.
+
+Lemma serial_op_plate x j :
+  length (i_vols j) = tw_R a -> (i_col x < g_cols (lw_geom P))%nat -> (i_col j < g_cols (lw_geom P))%nat ->
+  op_delta P pl (serial_op a x j) i ==
+  (if (i_col j =? c)%nat then inject_Z (nth r (i_vols j) 0%Z) else 0)
+  - (if (i_col x =? c)%nat then inject_Z (nth r (i_vols j) 0%Z) else 0).
+Proof.
+  intros Hlen Hcx Hcj. unfold serial_op, col_wells, pl. cbn [op_delta]. rewrite Nat.eqb_refl.
+  rewrite (t_triples_A1 _ _ _ (tw_R a));
+    [|apply column_wells_length|apply column_wells_length|rewrite map_length; exact Hlen].
+  unfold i. rewrite well_in_plate_col;
+    [|assumption|assumption|assumption|assumption|apply column_wells_length
+     |rewrite map_length; exact Hlen|exact Hcj].
+  rewrite well_out_plate_col;
+    [|assumption|assumption|assumption|assumption|apply column_wells_length
+     |rewrite map_length; exact Hlen|exact Hcx].
+  rewrite nth_inject. reflexivity.
+Qed.
+
+Lemma dest_op_plate x d : tw_dest a = Some d -> (i_col x < g_cols (lw_geom P))%nat ->
+  op_delta P pl (dest_op a x d) i == - (if (i_col x =? c)%nat then tw_v_destination a else 0).
+Proof.
+  intros Hd Hcx. unfold dest_op, col_wells, pl. cbn [op_delta].
+  assert (E : (tw_plate a =? d)%nat = false).
+  { apply Nat.eqb_neq. intro E. exact (Hdest d Hd (eq_sym E)). }
+  rewrite E, Nat.eqb_refl.
+  rewrite (t_triples_A1_A0 _ _ _ (tw_R a)); [|lia|apply column_wells_length|apply column_wells_length].
+  unfold i. rewrite well_out_plate_col;
+    [|assumption|assumption|assumption|assumption|apply column_wells_length|apply repeat_length|exact Hcx].
+  rewrite nth_repeat_lt by exact Hr. ring.
+Qed.
+
+(** net change of plate well (r, c) by the operations of instruction [x] *)
+Definition instr_plate_delta (x : instr) : Q :=
+  (if (i_col x =? c)%nat then
+     vm_of p x - (if stock_prepared x then 0 else inject_Z (nth r (i_vols x) 0%Z))
+     - inject_Z (drawn p (i_col x) r)
+     - (match tw_dest a with Some _ => tw_v_destination a | None => 0 end)
+   else 0)
+  + Qsum (map (fun j => if (i_col j =? c)%nat then inject_Z (nth r (i_vols j) 0%Z) else 0)
+              (filter (feeds (i_col x)) (dp_instr p))).
+
+Lemma instr_ops_plate wm x :
+  length (i_vols x) = tw_R a -> (i_col x < g_cols (lw_geom P))%nat ->
+  (forall j, In j (filter (feeds (i_col x)) (dp_instr p)) ->
+     length (i_vols j) = tw_R a /\ (i_col j < g_cols (lw_geom P))%nat) ->
+  ops_delta P pl (instr_ops a p wm gs gd x) i == instr_plate_delta x.
+Proof.
+  intros Hlen Hcx Hfed. rewrite c14_exec_structure, !ops_delta_app.
+  assert (E1 : ops_delta P pl (stock_part a gs x) i ==
+               if (i_col x =? c)%nat then (if stock_prepared x then inject_Z (nth r (i_vols x) 0%Z) else 0) else 0).
+  { unfold stock_part, stock_prepared. destruct (i_src x) as [k|].
+    - rewrite ops_delta_nil. destruct (i_col x =? c)%nat; reflexivity.
+    - rewrite !ops_delta_cons, ops_delta_nil, (stock_op_plate x Hlen Hcx). cbn [op_delta].
+      destruct (i_col x =? c)%nat; ring. }
+  assert (E2 : ops_delta P pl (dilute_part a p gd x) i ==
+               if (i_col x =? c)%nat then vm_of p x - inject_Z (nth r (i_vols x) 0%Z) else 0).
+  { unfold dilute_part. rewrite !ops_delta_cons, ops_delta_nil, (dilute_op_plate x Hlen Hcx). cbn [op_delta]. ring. }
+  assert (E3 : ops_delta P pl (mix_part a p wm x) i == 0).
+  { unfold mix_part. destruct (needs_mix a p x); [|reflexivity].
+    rewrite ops_delta_flat_map. apply Qsum_zero. intros k _.
+    rewrite !ops_delta_cons, ops_delta_nil, mix_op_plate. cbn [op_delta]. ring. }
+  assert (E4 : ops_delta P pl (serial_part a p x) i ==
+               Qsum (map (fun j => if (i_col j =? c)%nat then inject_Z (nth r (i_vols j) 0%Z) else 0)
+                         (filter (feeds (i_col x)) (dp_instr p)))
+               - (if (i_col x =? c)%nat then inject_Z (drawn p (i_col x) r) else 0)).
+  { unfold serial_part. rewrite ops_delta_flat_map.
+    rewrite (Qsum_map_ext _ (fun j => (if (i_col j =? c)%nat then inject_Z (nth r (i_vols j) 0%Z) else 0)
+                                      - (if (i_col x =? c)%nat then inject_Z (nth r (i_vols j) 0%Z) else 0))).
+    - rewrite Qsum_minus, Qsum_if_const. destruct (i_col x =? c)%nat; [rewrite drawn_Qsum|]; reflexivity.
+    - intros j Hj. destruct (Hfed j Hj) as (Hlj & Hcj).
+      rewrite !ops_delta_cons, ops_delta_nil, (serial_op_plate x j Hlj Hcx Hcj). cbn [op_delta]. ring. }
+  assert (E5 : ops_delta P pl (dest_part a x) i ==
+               - (if (i_col x =? c)%nat
+                  then (match tw_dest a with Some _ => tw_v_destination a | None => 0 end) else 0)).
+  { unfold dest_part. remember (tw_dest a) as od eqn:Ed in |- *. destruct od as [d|].
+    - rewrite !ops_delta_cons, ops_delta_nil, (dest_op_plate x d (eq_sym Ed) Hcx). cbn [op_delta]. ring.
+    - rewrite ops_delta_nil. destruct (i_col x =? c)%nat; ring. }
+  rewrite E1, E2, E3, E4, E5. unfold instr_plate_delta.
+  destruct (i_col x =? c)%nat; destruct (stock_prepared x); ring.
+Qed.
+
+End InstrPlate.
+
+(* ------------------------------------------------------------------------------------------ *)
+(** * what a list of transfers does to a trough column *)
+
+Lemma lw_index_col_bound L r c : (r < 26)%nat -> lw_index L (well_id r c) <> None -> (c < g_cols (lw_geom L))%nat.
+Proof.
+  intros Hr Hne. unfold lw_index in Hne.
+  destruct (well_index (lw_geom L) (well_id r c)) as [rc|] eqn:E; [|congruence].
+  destruct (well_index_domain _ _ _ E) as (r' & c' & Hr' & Hc' & Hid & _).
+  pose proof (n_row_ids_le (lw_geom L)) as Hle.
+  destruct (well_id_injective r c r' c' Hr ltac:(lia) Hid) as [_ <-]. exact Hc'.
+Qed.
+
+(** labware [kt] is never a destination, and as a source only with wells of its column [tcol] *)
+Definition draws_only_column (kt : nat) (g : geom) (tcol : nat) (o : op) : Prop :=
+  match o with
+  | OTransfer ks sw kd dw vs _ _ _ _ =>
+      kd <> kt /\ (ks = kt -> forall w, In w (flattenF sw) -> In w (trough_column_wells g tcol))
+  | _ => True
+  end.
+
+Lemma trough_delta_op lws kt T v tcol o i :
+  nth_error lws kt = Some T -> g_vrows (lw_geom T) = Some v ->
+  draws_only_column kt (lw_geom T) tcol o -> op_args_ok lws o ->
+  op_delta T kt o i == - (if (i =? tcol)%nat then requested kt o else 0).
+Proof.
+  intros HT Hv Hd Hok. destruct o; try (cbn [op_delta requested]; destruct (i =? tcol)%nat; ring).
+  cbn [op_delta requested draws_only_column op_args_ok] in *.
+  destruct Hd as (Hkd & Hsrc). destruct Hok as (L1 & L2 & L3 & Ls & Ld & HLs & HLd & Hrs & Hrd).
+  assert (E : (kt =? kd)%nat = false) by (apply Nat.eqb_neq; congruence). rewrite E.
+  rewrite (Nat.eqb_sym kt ks).
+  destruct (Nat.eqb_spec ks kt) as [->|Hne]; [|destruct (i =? tcol)%nat; ring].
+  rewrite HT in HLs. injection HLs as <-.
+  unfold t_triples. rewrite (well_out_const T i tcol).
+  - rewrite (Nat.eqb_sym tcol i). unfold transfer_total. fold (t_n swells dwells vols). fold (t_vol swells dwells vols).
+    destruct (i =? tcol)%nat; ring.
+  - intros w Hw. pose proof (Hrs w Hw) as Hne.
+    apply In_broadcast in Hw. apply (Hsrc eq_refl) in Hw.
+    destruct (trough_column_wells_In _ _ _ Hw) as (r & Hr & ->).
+    exact (proj1 (trough_lw_index T v r tcol Hv Hr Hne)).
+  - exact L1.
+  - exact L2.
+Qed.
+
+Lemma trough_delta_ops lws kt T v tcol i ops :
+  nth_error lws kt = Some T -> g_vrows (lw_geom T) = Some v ->
+  Forall (draws_only_column kt (lw_geom T) tcol) ops -> Forall (op_args_ok lws) ops ->
+  ops_delta T kt ops i == - (if (i =? tcol)%nat then requested_all kt ops else 0).
+Proof.
+  intros HT Hv Hd Hok. induction ops as [|o ops IH].
+  - rewrite ops_delta_nil. unfold requested_all. cbn [map]. destruct (i =? tcol)%nat; reflexivity.
+  - inversion Hd as [|o1 l1 Hd1 Hd2]; subst o1 l1. inversion Hok as [|o2 l2 Hok1 Hok2]; subst o2 l2.
+    rewrite ops_delta_cons, (IH Hd2 Hok2), (trough_delta_op lws kt T v tcol o i HT Hv Hd1 Hok1).
+    unfold requested_all. cbn [map]. destruct (i =? tcol)%nat; [rewrite Qsum_cons|]; ring.
+Qed.
+
+(** the operations of one instruction, by kind *)
+Lemma instr_ops_In a p wm gs gd x o : In o (instr_ops a p wm gs gd x) ->
+  o = OCommit \/ o = stock_op a gs x \/ o = dilute_op a p gd x \/ (exists ws, o = mix_op a p wm x ws) \/
+  (exists j, In j (filter (feeds (i_col x)) (dp_instr p)) /\ o = serial_op a x j) \/
+  (exists d, tw_dest a = Some d /\ o = dest_op a x d).
+Proof.
+  rewrite c14_exec_structure. intro H.
+  apply in_app_or in H. destruct H as [H|H].
+  { unfold stock_part in H. destruct (i_src x); [destruct H|].
+    destruct H as [H|[H|[]]]; subst o; auto. }
+  apply in_app_or in H. destruct H as [H|H].
+  { destruct H as [H|[H|[]]]; subst o; auto. }
+  apply in_app_or in H. destruct H as [H|H].
+  { unfold mix_part in H. destruct (needs_mix a p x); [|destruct H].
+    apply in_flat_map in H. destruct H as (k & _ & [H|[H|[]]]); subst o; [|auto].
+    right. right. right. left. eexists. reflexivity. }
+  apply in_app_or in H. destruct H as [H|H].
+  { unfold serial_part in H. apply in_flat_map in H. destruct H as (j & Hj & [H|[H|[]]]); subst o; [|auto].
+    right. right. right. right. left. exists j. split; [exact Hj|reflexivity]. }
+  unfold dest_part in H. destruct (tw_dest a) as [d|]; [|destruct H].
+  destruct H as [H|[H|[]]]; subst o; [|auto].
+  right. right. right. right. right. exists d. split; reflexivity.
+Qed.
+
+Lemma plan_ops_In a p gs gd is wms o : In o (plan_ops a p gs gd is wms) ->
+  exists x wm, In x is /\ In o (instr_ops a p wm gs gd x).
+Proof.
+  unfold plan_ops. intro H. apply in_flat_map in H. destruct H as ([x wm] & Hin & Ho).
+  exists x, wm. split; [exact (zip_In_fst _ _ _ Hin)|exact Ho].
+Qed.
+
+Lemma plan_ops_tc a p gs gd is wms : Forall tc_op (plan_ops a p gs gd is wms).
+Proof.
+  apply Forall_forall. intros o Ho. destruct (plan_ops_In _ _ _ _ _ _ _ Ho) as (x & wm & _ & Hin).
+  destruct (instr_ops_In _ _ _ _ _ _ _ Hin) as [->|[->|[->|[(ws & ->)|[(j & _ & ->)|(d & _ & ->)]]]]]; exact I.
+Qed.
+
+Lemma plan_ops_stock_column a p gs gd is wms :
+  tw_plate a <> tw_stock a -> tw_stock a <> tw_diluent a ->
+  (forall d, tw_dest a = Some d -> d <> tw_stock a) ->
+  Forall (draws_only_column (tw_stock a) gs (tw_stock_column a)) (plan_ops a p gs gd is wms).
+Proof.
+  intros Hps Hsd Hds. apply Forall_forall. intros o Ho.
+  destruct (plan_ops_In _ _ _ _ _ _ _ Ho) as (x & wm & _ & Hin).
+  destruct (instr_ops_In _ _ _ _ _ _ _ Hin) as [->|[->|[->|[(ws & ->)|[(j & _ & ->)|(d & Hd & ->)]]]]];
+    cbn [draws_only_column stock_op dilute_op mix_op serial_op dest_op flattenF]; try exact I.
+  - split; [exact Hps|]. intros _ w Hw. exact (cycle_wells_In _ _ _ Hw).
+  - split; [exact Hps|]. intro E. congruence.
+  - split; [exact Hps|]. intro E. congruence.
+  - split; [exact Hps|]. intro E. congruence.
+  - split; [exact (Hds d Hd)|]. intro E. congruence.
+Qed.
+
+Lemma plan_ops_diluent_column a p gs gd is wms :
+  tw_plate a <> tw_diluent a -> tw_stock a <> tw_diluent a ->
+  (forall d, tw_dest a = Some d -> d <> tw_diluent a) ->
+  Forall (draws_only_column (tw_diluent a) gd (tw_diluent_column a)) (plan_ops a p gs gd is wms).
+Proof.
+  intros Hpd Hsd Hdd. apply Forall_forall. intros o Ho.
+  destruct (plan_ops_In _ _ _ _ _ _ _ Ho) as (x & wm & _ & Hin).
+  destruct (instr_ops_In _ _ _ _ _ _ _ Hin) as [->|[->|[->|[(ws & ->)|[(j & _ & ->)|(d & Hd & ->)]]]]];
+    cbn [draws_only_column stock_op dilute_op mix_op serial_op dest_op flattenF]; try exact I.
+  - split; [exact Hpd|]. intro E. congruence.
+  - split; [exact Hpd|]. intros _ w Hw. exact (cycle_wells_In _ _ _ Hw).
+  - split; [exact Hpd|]. intro E. congruence.
+  - split; [exact Hpd|]. intro E. congruence.
+  - split; [exact (Hdd d Hd)|]. intro E. congruence.
+Qed.
+
+(* ------------------------------------------------------------------------------------------ *)
+(** * the whole plan: what arrives in plate well (r, c) *)
+
+Lemma Qsum_plus {A} (f g : A -> Q) l :
+  Qsum (map (fun x => f x + g x) l) == Qsum (map f l) + Qsum (map g l).
+Proof.
+  induction l as [|x l IH]; [unfold Qsum; cbn [map fold_right]; ring|].
+  cbn [map]. rewrite !Qsum_cons, IH. ring.
+Qed.
+
+Lemma plate_total ideal stock vmax mt p a r c :
+  plan_core ideal stock vmax mt = Ok p -> (c < length ideal)%nat ->
+  Qsum (map (instr_plate_delta a p r c) (dp_instr p)) ==
+  nth c vmax 0 - inject_Z (drawn p c r)
+  - (match tw_dest a with Some _ => tw_v_destination a | None => 0 end).
+Proof.
+  intros H Hc.
+  destruct (proj1 (c14_complete ideal stock vmax mt) p H) as (Hv & L1 & _ & _ & Hcol).
+  assert (Hcol' : forall m, (m < length (dp_instr p))%nat -> i_col (nth m (dp_instr p) dinstr) = m).
+  { intros m Hm. apply Hcol. rewrite <- L1. exact Hm. }
+  assert (Hc' : (c < length (dp_instr p))%nat) by (rewrite L1; exact Hc).
+  set (xc := nth c (dp_instr p) dinstr).
+  set (W := fun j : instr => inject_Z (nth r (i_vols j) 0%Z)).
+  unfold instr_plate_delta. rewrite Qsum_plus.
+  rewrite (Qsum_by_col (dp_instr p)
+             (fun x => vm_of p x - (if stock_prepared x then 0 else inject_Z (nth r (i_vols x) 0%Z))
+                       - inject_Z (drawn p (i_col x) r)
+                       - (match tw_dest a with Some _ => tw_v_destination a | None => 0 end)) c Hcol' Hc').
+  fold xc.
+  assert (E2 : Qsum (map (fun x => Qsum (map (fun j => if (i_col j =? c)%nat then W j else 0)
+                                             (filter (feeds (i_col x)) (dp_instr p)))) (dp_instr p))
+               == if stock_prepared xc then 0 else W xc).
+  { rewrite (Qsum_map_ext _ (fun x => if feeds (i_col x) xc then W xc else 0)).
+    - unfold stock_prepared, feeds. destruct (i_src xc) as [s|] eqn:Es.
+      + rewrite (Qsum_map_ext _ (fun x => if (i_col x =? s)%nat then W xc else 0)).
+        * apply (Qsum_by_col (dp_instr p) (fun _ => W xc) s Hcol').
+          destruct (c14_order _ _ _ _ _ H) as (n1 & _ & Hord).
+          destruct (Hord c Hc) as [(_ & Hsrc & _)|(_ & k & Hk & Hsrc & _)];
+            unfold psrc in Hsrc; fold xc in Hsrc; rewrite Es in Hsrc; [discriminate|].
+          injection Hsrc as ->. lia.
+        * intros x _. rewrite Nat.eqb_sym. reflexivity.
+      + apply Qsum_zero. intros x _. reflexivity.
+    - intros x _. rewrite Qsum_filter_if.
+      rewrite (Qsum_map_ext _ (fun j => if (i_col j =? c)%nat then (if feeds (i_col x) j then W j else 0) else 0)).
+      + apply (Qsum_by_col (dp_instr p) (fun j => if feeds (i_col x) j then W j else 0) c Hcol' Hc').
+      + intros j _. destruct (feeds (i_col x) j); destruct (i_col j =? c)%nat; reflexivity. }
+  unfold W in E2. rewrite E2. unfold vm_of.
+  assert (Exc : i_col xc = c) by (apply Hcol'; exact Hc').
+  rewrite Exc, Hv. destruct (stock_prepared xc); ring.
+Qed.
+
+Lemma In_broadcast_ge {A} (l : list A) n x : In x l -> (length l <= n)%nat -> In x (broadcast l n).
+Proof.
+  destruct l as [|y [|z t]]; cbn [broadcast]; intros H Hn; try exact H.
+  destruct H as [<-|[]]. cbn [length] in Hn. destruct n as [|n]; [lia|]. left. reflexivity.
+Qed.
+
+(* ------------------------------------------------------------------------------------------ *)
+(** * C14_exec_volumes *)
+
+Theorem c14_exec_volumes ideal stock vmax mt p R a C s s' P St D :
+  plan_core ideal stock vmax mt = Ok p -> Forall (fun col => length col = R) ideal ->
+  length vmax = length ideal -> tw_R a = R ->
+  to_worklist s a p C = (s', None) -> wf_state s -> 0 < w_max (st_wl s) ->
+  tw_plate a <> tw_stock a -> tw_plate a <> tw_diluent a -> tw_stock a <> tw_diluent a ->
+  (forall d, tw_dest a = Some d -> d <> tw_plate a /\ d <> tw_stock a /\ d <> tw_diluent a) ->
+  nth_error (st_lw s) (tw_plate a) = Some P -> nth_error (st_lw s) (tw_stock a) = Some St ->
+  nth_error (st_lw s) (tw_diluent a) = Some D ->
+  is_trough (lw_geom P) = false ->
+  (forall r c, (r < R)%nat -> (c < length ideal)%nat -> vol_at P (r * g_cols (lw_geom P) + c) == 0) ->
+  exists P' St' D',
+    nth_error (st_lw s') (tw_plate a) = Some P' /\ nth_error (st_lw s') (tw_stock a) = Some St' /\
+    nth_error (st_lw s') (tw_diluent a) = Some D' /\
+    lw_geom P' = lw_geom P /\ lw_geom St' = lw_geom St /\ lw_geom D' = lw_geom D /\
+    (forall i, vol_at St' i == vol_at St i - (if (i =? tw_stock_column a)%nat then inject_Z (v_stock p) else 0)) /\
+    (forall i, vol_at D' i == vol_at D i -
+       (if (i =? tw_diluent_column a)%nat
+        then inject_Z (Z.of_nat R) * Qsum vmax - inject_Z (Zsum (all_vols p)) else 0)) /\
+    (0 <= mt -> inject_Z (Z.of_nat R) * Qsum vmax - inject_Z (Zsum (all_vols p)) <= v_diluent R p) /\
+    (forall r c, (r < R)%nat -> (c < length ideal)%nat ->
+       lw_index P (well_id r c) = Some (r * g_cols (lw_geom P) + c)%nat /\
+       vol_at P' (r * g_cols (lw_geom P) + c) ==
+         nth c vmax 0 - inject_Z (drawn p c r)
+         - (match tw_dest a with Some _ => tw_v_destination a | None => 0 end)).
+Proof.
+  intros Hplan Hrect Lv HR Hrun Hwf Hm Hps Hpd Hsd Hdest HP HSt HD HPt Hempty.
+  (* the checks of to_worklist *)
+  unfold to_worklist in Hrun. rewrite HP, HSt, HD in Hrun.
+  destruct ((n_row_ids (lw_geom P) <? tw_R a)%nat || (g_cols (lw_geom P) <? C)%nat) eqn:E1; [discriminate|].
+  match type of Hrun with (if ?b then _ else _) = _ => destruct b; [discriminate|] end.
+  destruct (negb (is_trough (lw_geom St)) || negb (is_trough (lw_geom D))) eqn:E3; [discriminate|].
+  apply orb_false_iff in E1. destruct E1 as [E1 _]. apply Nat.ltb_ge in E1.
+  apply orb_false_iff in E3. destruct E3 as [E3a E3b].
+  apply negb_false_iff in E3a. apply negb_false_iff in E3b.
+  unfold is_trough in E3a, E3b, HPt.
+  destruct (g_vrows (lw_geom St)) as [vs|] eqn:EvS; [|discriminate].
+  destruct (g_vrows (lw_geom D)) as [vd|] eqn:EvD; [|discriminate].
+  destruct (g_vrows (lw_geom P)) as [vp|] eqn:EvP; [discriminate|].
+  clear E3a E3b HPt.
+  (* the run as a list of operations *)
+  destruct (run_instrs_ops _ _ _ _ _ _ _ Hrun) as (wms & Lw & Hops).
+  set (ops := plan_ops a p (lw_geom St) (lw_geom D) (dp_instr p) wms) in *.
+  destruct (run_ops_ledger ops _ _ (plan_ops_tc _ _ _ _ _ _) Hops Hwf Hm)
+    as (_ & _ & Hoks & _ & Hled).
+  destruct (c14_exec_requested ideal stock vmax mt p R a (lw_geom St) (lw_geom D) wms
+              Hplan Hrect Lv HR Hps Hpd Hsd Lw) as (Hrs & Hrd & _ & Hle).
+  fold ops in Hrs, Hrd, Hle.
+  destruct (Hled _ _ HP) as (P' & HP' & HgP & HvP).
+  destruct (Hled _ _ HSt) as (St' & HSt' & HgS & HvS).
+  destruct (Hled _ _ HD) as (D' & HD' & HgD & HvD).
+  exists P', St', D'.
+  split; [exact HP'|]. split; [exact HSt'|]. split; [exact HD'|].
+  split; [exact HgP|]. split; [exact HgS|]. split; [exact HgD|].
+  split; [|split; [|split]].
+  - intro i. rewrite HvS.
+    rewrite (trough_delta_ops (st_lw s) (tw_stock a) St vs (tw_stock_column a) i ops HSt EvS);
+      [|apply plan_ops_stock_column; [assumption|assumption|intros d Hd; exact (proj1 (proj2 (Hdest d Hd)))]|exact Hoks].
+    destruct (i =? tw_stock_column a)%nat; [rewrite Hrs|]; ring.
+  - intro i. rewrite HvD.
+    rewrite (trough_delta_ops (st_lw s) (tw_diluent a) D vd (tw_diluent_column a) i ops HD EvD);
+      [|apply plan_ops_diluent_column; [assumption|assumption|intros d Hd; exact (proj2 (proj2 (Hdest d Hd)))]|exact Hoks].
+    destruct (i =? tw_diluent_column a)%nat; [rewrite Hrd|]; ring.
+  - intro Hmt. rewrite <- Hrd. exact (Hle Hmt).
+  - intros r c Hr Hc.
+    pose proof (n_row_ids_le (lw_geom P)) as Hle26.
+    assert (HR' : (tw_R a <= n_row_ids (lw_geom P))%nat) by exact E1.
+    assert (Hr' : (r < tw_R a)%nat) by (rewrite HR; exact Hr).
+    destruct (proj1 (c14_complete ideal stock vmax mt) p Hplan) as (Hv & L1 & _ & _ & Hcol).
+    assert (HgS0 : trough_column_wells (lw_geom St) (tw_stock_column a) <> []).
+    { destruct (n_row_ids_trough _ _ (wf_geom_nth _ _ _ Hwf HSt) EvS) as (En & Hn1 & _).
+      unfold trough_column_wells. rewrite En. destruct vs as [|vs']; [lia|]. discriminate. }
+    assert (HgD0 : trough_column_wells (lw_geom D) (tw_diluent_column a) <> []).
+    { destruct (n_row_ids_trough _ _ (wf_geom_nth _ _ _ Hwf HD) EvD) as (En & Hn1 & _).
+      unfold trough_column_wells. rewrite En. destruct vd as [|vd']; [lia|]. discriminate. }
+    assert (Hlenx : forall x, In x (dp_instr p) -> length (i_vols x) = tw_R a).
+    { intros x Hx. destruct (plan_instr_nth _ _ _ _ _ _ Hplan Hx) as (m & Hm' & Hn & _).
+      destruct (c14_shape _ _ _ _ _ _ Hplan Hrect m Hm') as (Lc & _). rewrite Hn in Lc. rewrite HR. exact Lc. }
+    (* every column of the plan exists on the plate: its dilution transfer was accepted *)
+    assert (Hcolx : forall x, In x (dp_instr p) -> (i_col x < g_cols (lw_geom P))%nat).
+    { intros x Hx. destruct (zip_In_l (dp_instr p) wms x Lw Hx) as (wm & Hin).
+      assert (Hop : In (dilute_op a p (lw_geom D) x) ops).
+      { unfold ops, plan_ops. apply in_flat_map. exists (x, wm). split; [exact Hin|].
+        cbn [fst snd]. rewrite c14_exec_structure. apply in_or_app. right. left. reflexivity. }
+      rewrite Forall_forall in Hoks. specialize (Hoks _ Hop).
+      unfold dilute_op in Hoks. cbn [op_args_ok] in Hoks.
+      destruct Hoks as (_ & _ & _ & Ls & Ld & _ & HLd & _ & Hres). rewrite HP in HLd. injection HLd as <-.
+      apply (lw_index_col_bound P 0); [lia|]. apply Hres.
+      unfold t_dst, col_wells. cbn [flattenF]. apply In_broadcast_ge.
+      - unfold column_wells. apply in_map_iff. exists 0%nat. split; [reflexivity|]. apply in_seq. lia.
+      - rewrite column_wells_length. unfold t_n. cbn [flattenF]. rewrite column_wells_length. lia. }
+    assert (Hcg : (c < g_cols (lw_geom P))%nat).
+    { rewrite <- (Hcol c Hc). apply Hcolx. apply nth_In. rewrite L1. exact Hc. }
+    split; [apply plate_lw_index; [exact EvP|lia|exact Hcg]|].
+    rewrite HvP, (Hempty r c Hr Hc).
+    unfold ops, plan_ops. rewrite ops_delta_flat_map.
+    rewrite (Qsum_map_ext _ (fun iw => instr_plate_delta a p r c (fst iw))).
+    + rewrite (map_fst_zip_len (instr_plate_delta a p r c)) by exact Lw.
+      rewrite (plate_total ideal stock vmax mt p a r c Hplan Hc). ring.
+    + intros [x wm] Hin. cbn [fst snd]. pose proof (zip_In_fst _ _ _ Hin) as Hx. cbn [fst] in Hx.
+      apply (instr_ops_plate a p (lw_geom St) (lw_geom D) P r c EvP HR' Hr' Hcg Hps Hpd
+               (fun d Hd => proj1 (Hdest d Hd)) HgS0 HgD0 wm x (Hlenx x Hx) (Hcolx x Hx)).
+      intros j Hj. apply filter_In in Hj. destruct Hj as (Hj & _). split; [exact (Hlenx j Hj)|exact (Hcolx j Hj)].
+Qed.
+
+(* ------------------------------------------------------------------------------------------ *)
+(** * C14_transfer_ledger: statement-level form and the necessity of [0 < max_volume] *)
+
+Lemma c14_transfer_ledger s ks sw kd dw vols label ws pb kw s' :
+  transfer s ks sw kd dw vols label ws pb kw = (s', None) -> wf_state s -> 0 < w_max (st_wl s) ->
+  length (st_lw s') = length (st_lw s) /\
+  forall j L, nth_error (st_lw s) j = Some L ->
+    exists L', nth_error (st_lw s') j = Some L' /\ lw_geom L' = lw_geom L /\
+      forall i, vol_at L' i == vol_at L i
+                             - (if (j =? ks)%nat then well_out L i (t_triples sw dw vols) else 0)
+                             + (if (j =? kd)%nat then well_in L i (t_triples sw dw vols) else 0).
+Proof. intros H Hwf Hm. exact (proj1 (transfer_ledger _ _ _ _ _ _ _ _ _ _ _ H Hwf Hm)). Qed.
+
+(** with a negative max_volume and auto_split, [partition_volume] yields one non-positive piece, no
+    step is planned, the transfer "succeeds" and nothing moves *)
+Definition neg_max_state : state :=
+  {| st_lw := [ex_plate]; st_wl := init_wl Evo (-(2)) true false |}.
+
+Lemma c14_transfer_ledger_refuted :
+  exists s ks sw kd dw vols label ws pb kw s' L L',
+    transfer s ks sw kd dw vols label ws pb kw = (s', None) /\ wf_state s /\
+    nth_error (st_lw s) ks = Some L /\ nth_error (st_lw s') ks = Some L' /\
+    ~ vol_at L' 0 == vol_at L 0
+                     - (if (ks =? ks)%nat then well_out L 0 (t_triples sw dw vols) else 0)
+                     + (if (ks =? kd)%nat then well_in L 0 (t_triples sw dw vols) else 0).
+Proof.
+  exists neg_max_state, 0%nat, (A0 "A01"%string), 0%nat, (A0 "A02"%string), (A0 5), None, (SInt 1),
+         "auto"%string, kw_default.
+  eexists. exists ex_plate. eexists.
+  split; [vm_compute; reflexivity|].
+  split; [constructor; [exact ex_plate_wf|constructor]|].
+  split; [reflexivity|]. split; [reflexivity|].
+  vm_compute. intro H. discriminate H.
+Qed.
+
+(* ------------------------------------------------------------------------------------------ *)
+(** * tracked fractions: one pipetting step *)
+
+Section Fractions.
+Variable k : string.   (* the component that is followed *)
+
+Lemma frac_log L label i : frac (log L label) k i = frac L k i.
+Proof. reflexivity. Qed.
+
+Lemma frac_rem_one L i0 v i : frac (rem_one L i0 v) k i = frac L k i.
+Proof. reflexivity. Qed.
+
+Lemma mix_inv_parts L : mix_inv L ->
+  MixingProofs.arrays_len (n_wells (lw_geom L)) (lw_comp L) /\ NoDup (map fst (lw_comp L)) /\
+  (forall i, 0 <= frac L k i) /\ (forall i, 0 <= vol_at L i) /\ shape0 L.
+Proof.
+  intros [HV HC]. pose proof HC as (HL & ND & _ & _).
+  split; [exact HL|]. split; [exact ND|]. split; [intro i; exact (proj1 (comp_inv_frac L k i HC))|].
+  split; [intro i; exact (vol_base_vol_at L i HV)|].
+  destruct HV as (Hg & Hlen & _). split; assumption.
+Qed.
+
+(** volumes and fractions of [k] after one accepted step of a positive volume *)
+Lemma exec_step_full s ks kd sw dw v ws kw s' :
+  exec_step s ks kd sw dw v ws kw = (s', None) -> st_inv s -> wf_state s -> 0 < v ->
+  exists Ls Ld i_s i_d,
+    nth_error (st_lw s) ks = Some Ls /\ nth_error (st_lw s) kd = Some Ld /\
+    lw_index Ls sw = Some i_s /\ lw_index Ld dw = Some i_d /\ v <= vol_at Ls i_s /\
+    forall j L, nth_error (st_lw s) j = Some L ->
+      exists L', nth_error (st_lw s') j = Some L' /\ lw_geom L' = lw_geom L /\
+        (forall i, vol_at L' i == vol_at L i
+                               - (if ((j =? ks) && (i_s =? i))%nat then v else 0)
+                               + (if ((j =? kd) && (i_d =? i))%nat then v else 0)) /\
+        (forall i, ~ (j = kd /\ i = i_d) -> frac L' k i = frac L k i) /\
+        (j = kd -> vol_at L' i_d * frac L' k i_d ==
+                   (vol_at L i_d - (if ((ks =? kd) && (i_s =? i_d))%nat then v else 0)) * frac L k i_d
+                   + v * frac Ls k i_s).
+Proof.
+  intros H HI Hwf Hv.
+  destruct (exec_step_state _ _ _ _ _ _ _ _ _ H)
+    as (Ls & i_s & Ld1 & i_d & HLs & His & Hchk & _ & HLd1 & Hid & _ & Hst).
+  pose proof (nth_error_lt _ _ _ HLs) as Hks.
+  pose proof (st_inv_nth _ _ _ HI HLs) as HIs.
+  destruct (mix_inv_parts Ls HIs) as (HLS & NDS & HfS & HvS & HshS).
+  pose proof (lw_index_bound _ _ _ HshS His) as Hbs.
+  apply Qltb_false in Hchk. rewrite Qred_correct in Hchk.
+  assert (Hmin : 0 <= lw_min Ls) by (destruct HIs as [(_ & _ & Hm & _) _]; exact Hm).
+  assert (Hle : v <= vol_at Ls i_s) by lra.
+  set (Ls' := log (rem_one Ls i_s v) None) in *.
+  assert (HIs' : mix_inv Ls').
+  { apply log_inv. change (mix_inv (rem_step Ls i_s v)). apply rem_step_inv; [exact HIs|].
+    rewrite Qred_correct. exact Hchk. }
+  assert (HvS' : forall i, vol_at Ls' i == vol_at Ls i - (if (i_s =? i)%nat then v else 0)).
+  { intro i. unfold Ls'. rewrite vol_at_log, vol_at_rem_one by exact Hbs. destruct (i_s =? i)%nat; ring. }
+  (* the destination labware as the dispense finds it *)
+  assert (HD1 : mix_inv Ld1 /\ exists Ld, nth_error (st_lw s) kd = Some Ld /\ lw_geom Ld1 = lw_geom Ld /\
+            (forall i, frac Ld1 k i = frac Ld k i) /\
+            forall i, vol_at Ld1 i == vol_at Ld i - (if ((kd =? ks) && (i_s =? i))%nat then v else 0)).
+  { destruct (Nat.eqb_spec kd ks) as [->|Hne].
+    - rewrite RefinementProofs.nth_error_upd_same in HLd1 by exact Hks. injection HLd1 as <-.
+      split; [exact HIs'|]. exists Ls. split; [exact HLs|]. split; [reflexivity|]. split; [intro i; reflexivity|].
+      intro i. cbn [andb]. apply HvS'.
+    - rewrite nth_error_upd_other in HLd1 by (intro E; apply Hne; symmetry; exact E).
+      split; [exact (st_inv_nth _ _ _ HI HLd1)|]. exists Ld1. split; [exact HLd1|]. split; [reflexivity|].
+      split; [intro i; reflexivity|]. intro i. cbn [andb]. ring. }
+  destruct HD1 as (HI1 & Ld & HLd & HgD & HfD & HvD).
+  destruct (mix_inv_parts Ld1 HI1) as (HL1 & ND1 & Hf1 & Hv1 & Hsh1).
+  pose proof (lw_index_bound _ _ _ Hsh1 Hid) as Hbd.
+  assert (Hbd' : (i_d < n_wells (lw_geom Ld1))%nat) by (rewrite <- (proj2 Hsh1); exact Hbd).
+  set (c := RefinementProofs.wca (lw_comp Ls) i_s) in *.
+  assert (Hc : c = MixingProofs.wca (lw_comp Ls) i_s) by reflexivity.
+  assert (NDc : NoDup (map fst c)) by (rewrite Hc; apply MixingProofs.wca_NoDup; exact NDS).
+  assert (Hcg : cget k c == frac Ls k i_s).
+  { rewrite Hc, wca_get_pfrac by exact NDS. apply pfrac_nonneg. apply HfS. }
+  set (Ld' := log (add_one Ld1 i_d v (Some c)) None) in *.
+  assert (HgD' : lw_geom Ld' = lw_geom Ld).
+  { rewrite <- HgD. exact (proj1 (proj2 (add_one_frame Ld1 i_d v (Some c)))). }
+  assert (HvD' : forall i, vol_at Ld' i == vol_at Ld1 i + (if (i_d =? i)%nat then v else 0)).
+  { intro i. unfold Ld'. rewrite vol_at_log. apply vol_at_add_one. exact Hbd. }
+  assert (HfD' : forall i, i <> i_d -> frac Ld' k i = frac Ld k i).
+  { intros i Hi. unfold Ld'. rewrite frac_log. change (add_one Ld1 i_d v (Some c)) with (add_step Ld1 i_d v (Some c)).
+    rewrite add_step_frac_other by assumption. apply HfD. }
+  assert (Hnz : ~ vol_at Ld1 i_d + v == 0) by (pose proof (Hv1 i_d); lra).
+  assert (HaD' : vol_at Ld' i_d * frac Ld' k i_d == vol_at Ld1 i_d * frac Ld k i_d + v * frac Ls k i_s).
+  { rewrite HvD', Nat.eqb_refl. unfold Ld'. rewrite frac_log.
+    change (add_one Ld1 i_d v (Some c)) with (add_step Ld1 i_d v (Some c)).
+    rewrite add_step_frac_same by (try assumption; apply Hf1).
+    rewrite Hcg, HfD. field. exact Hnz. }
+  assert (Hkd : (kd < length (st_lw s))%nat) by (eapply nth_error_lt; exact HLd).
+  exists Ls, Ld, i_s, i_d.
+  split; [exact HLs|]. split; [exact HLd|]. split; [exact His|].
+  split; [rewrite <- (lw_index_geom Ld1 Ld dw HgD); exact Hid|]. split; [exact Hle|].
+  intros j L HL. rewrite Hst.
+  destruct (Nat.eqb_spec j kd) as [Ejd|Hjd].
+  - subst j. rewrite HLd in HL. injection HL as <-.
+    exists Ld'. split; [apply RefinementProofs.nth_error_upd_same; rewrite upd_length; exact Hkd|].
+    split; [exact HgD'|]. split; [|split].
+    + intro i. rewrite HvD', HvD. cbn [andb]. reflexivity.
+    + intros i Hn. apply HfD'. intro E. apply Hn. split; [reflexivity|exact E].
+    + intros _. rewrite HaD', HvD. rewrite (Nat.eqb_sym ks kd). reflexivity.
+  - rewrite nth_error_upd_other by (intro E; apply Hjd; symmetry; exact E).
+    destruct (Nat.eqb_spec j ks) as [Ejs|Hjs].
+    + subst j. rewrite HLs in HL. injection HL as <-.
+      exists Ls'. split; [apply RefinementProofs.nth_error_upd_same; exact Hks|]. split; [reflexivity|].
+      split; [|split].
+      * intro i. rewrite HvS'. cbn [andb]. ring.
+      * intros i _. reflexivity.
+      * intro E. congruence.
+    + rewrite nth_error_upd_other by (intro E; apply Hjs; symmetry; exact E).
+      exists L. split; [exact HL|]. split; [reflexivity|]. split; [|split].
+      * intro i. cbn [andb]. ring.
+      * intros i _. reflexivity.
+      * intro E. congruence.
+Qed.
+
+End Fractions.
+
+(* ------------------------------------------------------------------------------------------ *)
+(** * tracked fractions: a run of actions *)
+
+Section FractionsExec.
+Variable k : string.
+
+(** a well that is no destination keeps its fractions *)
+Lemma exec_frame ks kd ws kw acts : forall s s',
+  exec s ks kd acts ws kw = (s', None) -> st_inv s -> wf_state s -> Forall step_pos acts ->
+  forall j L, nth_error (st_lw s) j = Some L ->
+    exists L', nth_error (st_lw s') j = Some L' /\ lw_geom L' = lw_geom L /\
+      forall i, (j = kd -> forall t, In t (steps_of acts) -> idx_is L i (snd (fst t)) = false) ->
+                frac L' k i = frac L k i.
+Proof.
+  induction acts as [|[sw dw v|] acts IH]; intros s s' H HI Hwf Hpos j L HL.
+  - cbn [exec] in H. injection H as <-. exists L. split; [exact HL|]. split; reflexivity.
+  - cbn [exec] in H. destruct (exec_step s ks kd sw dw v ws kw) as [s1 [e|]] eqn:E; [discriminate|].
+    inversion Hpos as [|a0 l0 Hv Hpos']; subst a0 l0. cbn [step_pos] in Hv.
+    pose proof (exec_step_wf' _ _ _ _ _ _ _ _ _ _ E Hwf) as Hwf1.
+    pose proof (exec_step_inv s ks kd sw dw v ws kw HI) as HI1. rewrite E in HI1. cbn [fst] in HI1.
+    destruct (exec_step_full k _ _ _ _ _ _ _ _ _ E HI Hwf Hv)
+      as (Ls & Ld & i_s & i_d & HLs & HLd & His & Hid & _ & Hstep).
+    destruct (Hstep j L HL) as (L1 & HL1 & Hg1 & _ & Hf1 & _).
+    destruct (IH _ _ H HI1 Hwf1 Hpos' j L1 HL1) as (L' & HL' & Hg' & Hf').
+    exists L'. split; [exact HL'|]. split; [rewrite Hg'; exact Hg1|].
+    intros i Hnd. change (steps_of (Step sw dw v :: acts)) with ((sw, dw, v) :: steps_of acts) in Hnd.
+    rewrite Hf'.
+    + apply Hf1. intros [Ej Ei]. subst j i. rewrite HLd in HL. injection HL as <-.
+      specialize (Hnd eq_refl (sw, dw, v) (or_introl eq_refl)). cbn [fst snd] in Hnd.
+      unfold idx_is in Hnd. rewrite Hid, Nat.eqb_refl in Hnd. discriminate.
+    + intros Ej t Ht. rewrite (idx_is_geom L1 L i _ Hg1). apply (Hnd Ej). right. exact Ht.
+  - cbn [exec] in H. inversion Hpos as [|a0 l0 _ Hpos']; subst a0 l0.
+    exact (IH _ _ H HI (wf_set_wl _ _ Hwf) Hpos' j L HL).
+Qed.
+
+(** all liquid that arrives in well [i0] of the destination comes from the real well [a0] of the
+    source, which receives nothing, and [i0] gives nothing away: the amount of [k] in [i0] grows by
+    (volume received) * (fraction in [a0]) *)
+Lemma exec_uniform ks kd ws kw i0 a0 acts : forall s s' Ls Ld,
+  exec s ks kd acts ws kw = (s', None) -> st_inv s -> wf_state s -> Forall step_pos acts ->
+  nth_error (st_lw s) ks = Some Ls -> nth_error (st_lw s) kd = Some Ld ->
+  (forall t, In t (steps_of acts) -> idx_is Ld i0 (snd (fst t)) = true -> lw_index Ls (fst (fst t)) = Some a0) ->
+  (ks = kd -> forall t, In t (steps_of acts) -> idx_is Ld a0 (snd (fst t)) = false) ->
+  (ks = kd -> forall t, In t (steps_of acts) -> idx_is Ls i0 (fst (fst t)) = false) ->
+  exists Ld', nth_error (st_lw s') kd = Some Ld' /\
+    vol_at Ld' i0 * frac Ld' k i0 ==
+    vol_at Ld i0 * frac Ld k i0 + well_in Ld i0 (steps_of acts) * frac Ls k a0.
+Proof.
+  induction acts as [|[sw dw v|] acts IH]; intros s s' Ls Ld H HI Hwf Hpos HLs HLd H1 H2 H3.
+  - cbn [exec] in H. injection H as <-. exists Ld. split; [exact HLd|].
+    unfold well_in, steps_of. cbn [flat_map filter map]. unfold Qsum. cbn [fold_right]. ring.
+  - cbn [exec] in H. destruct (exec_step s ks kd sw dw v ws kw) as [s1 [e|]] eqn:E; [discriminate|].
+    inversion Hpos as [|a1 l1 Hv Hpos']; subst a1 l1. cbn [step_pos] in Hv.
+    pose proof (exec_step_wf' _ _ _ _ _ _ _ _ _ _ E Hwf) as Hwf1.
+    pose proof (exec_step_inv s ks kd sw dw v ws kw HI) as HI1. rewrite E in HI1. cbn [fst] in HI1.
+    destruct (exec_step_full k _ _ _ _ _ _ _ _ _ E HI Hwf Hv)
+      as (Ls0 & Ld0 & i_s & i_d & HLs0 & HLd0 & His & Hid & _ & Hstep).
+    rewrite HLs in HLs0. injection HLs0 as <-. rewrite HLd in HLd0. injection HLd0 as <-.
+    change (steps_of (Step sw dw v :: acts)) with ((sw, dw, v) :: steps_of acts) in *.
+    destruct (Hstep ks Ls HLs) as (Ls1 & HLs1 & HgS & _ & HfS & _).
+    destruct (Hstep kd Ld HLd) as (Ld1 & HLd1 & HgD & HvD & HfD & HaD).
+    (* the source well a0 is not the destination of this step *)
+    assert (Ha0 : frac Ls1 k a0 = frac Ls k a0).
+    { apply HfS. intros [Ek Ea]. specialize (H2 Ek (sw, dw, v) (or_introl eq_refl)). cbn [fst snd] in H2.
+      unfold idx_is in H2. rewrite Hid, Ea, Nat.eqb_refl in H2. discriminate. }
+    (* well i0 is not the source of this step *)
+    assert (Hi0 : ks = kd -> i_s <> i0).
+    { intros Ek Ei. specialize (H3 Ek (sw, dw, v) (or_introl eq_refl)). cbn [fst snd] in H3.
+      unfold idx_is in H3. rewrite His, Ei, Nat.eqb_refl in H3. discriminate. }
+    destruct (IH s1 s' Ls1 Ld1 H HI1 Hwf1 Hpos' HLs1 HLd1) as (Ld' & HLd' & Hamt).
+    { intros t Ht Hd. rewrite (lw_index_geom Ls1 Ls _ HgS). apply H1; [right; exact Ht|].
+      rewrite <- (idx_is_geom Ld1 Ld i0 _ HgD). exact Hd. }
+    { intros Ek t Ht. rewrite (idx_is_geom Ld1 Ld a0 _ HgD). apply (H2 Ek). right. exact Ht. }
+    { intros Ek t Ht. rewrite (idx_is_geom Ls1 Ls i0 _ HgS). apply (H3 Ek). right. exact Ht. }
+    exists Ld'. split; [exact HLd'|]. rewrite Hamt, (well_in_geom Ld1 Ld i0 _ HgD), Ha0, well_in_cons.
+    unfold idx_is at 1. rewrite Hid.
+    destruct (Nat.eqb_spec i_d i0) as [Ed|Nd].
+    + subst i0. rewrite (HaD eq_refl).
+      assert (Esrc : i_s = a0).
+      { specialize (H1 (sw, dw, v) (or_introl eq_refl)). cbn [fst snd] in H1.
+        unfold idx_is in H1. rewrite Hid, Nat.eqb_refl in H1. specialize (H1 eq_refl).
+        rewrite His in H1. injection H1 as ->. reflexivity. }
+      assert (Eself : ((ks =? kd) && (i_s =? i_d))%nat = false).
+      { destruct (Nat.eqb_spec ks kd) as [Ek|Nk]; [|reflexivity]. cbn [andb].
+        apply Nat.eqb_neq. exact (Hi0 Ek). }
+      rewrite Eself, Esrc. ring.
+    + rewrite (HfD i0) by (intros [_ Ei]; apply Nd; symmetry; exact Ei).
+      rewrite (HvD i0). rewrite Nat.eqb_refl. cbn [andb].
+      assert (E1 : (i_d =? i0)%nat = false) by (apply Nat.eqb_neq; exact Nd). rewrite E1.
+      assert (E2 : ((kd =? ks) && (i_s =? i0))%nat = false).
+      { destruct (Nat.eqb_spec kd ks) as [Ek|Nk]; [|reflexivity]. cbn [andb].
+        apply Nat.eqb_neq. exact (Hi0 (eq_sym Ek)). }
+      rewrite E2. ring.
+  - cbn [exec] in H. inversion Hpos as [|a1 l1 _ Hpos']; subst a1 l1.
+    change (steps_of (Commit :: acts)) with (steps_of acts) in *.
+    exact (IH _ _ Ls Ld H HI (wf_set_wl _ _ Hwf) Hpos' HLs HLd H1 H2 H3).
+Qed.
+
+(** every step puts the liquid back where it came from: nothing changes *)
+Lemma exec_diag ks ws kw acts : forall s s',
+  exec s ks ks acts ws kw = (s', None) -> st_inv s -> wf_state s -> Forall step_pos acts ->
+  (forall t, In t (steps_of acts) -> fst (fst t) = snd (fst t)) ->
+  forall j L, nth_error (st_lw s) j = Some L ->
+    exists L', nth_error (st_lw s') j = Some L' /\ lw_geom L' = lw_geom L /\
+      forall i, vol_at L' i == vol_at L i /\ frac L' k i == frac L k i.
+Proof.
+  induction acts as [|[sw dw v|] acts IH]; intros s s' H HI Hwf Hpos Hdiag j L HL.
+  - cbn [exec] in H. injection H as <-. exists L. split; [exact HL|]. split; [reflexivity|].
+    intro i. split; reflexivity.
+  - cbn [exec] in H. destruct (exec_step s ks ks sw dw v ws kw) as [s1 [e|]] eqn:E; [discriminate|].
+    inversion Hpos as [|a1 l1 Hv Hpos']; subst a1 l1. cbn [step_pos] in Hv.
+    pose proof (exec_step_wf' _ _ _ _ _ _ _ _ _ _ E Hwf) as Hwf1.
+    pose proof (exec_step_inv s ks ks sw dw v ws kw HI) as HI1. rewrite E in HI1. cbn [fst] in HI1.
+    change (steps_of (Step sw dw v :: acts)) with ((sw, dw, v) :: steps_of acts) in Hdiag.
+    pose proof (Hdiag (sw, dw, v) (or_introl eq_refl)) as Esd. cbn [fst snd] in Esd. subst dw.
+    destruct (exec_step_full k _ _ _ _ _ _ _ _ _ E HI Hwf Hv)
+      as (Ls & Ld & i_s & i_d & HLs & HLd & His & Hid & Hle & Hstep).
+    rewrite HLs in HLd. injection HLd as <-. rewrite His in Hid. injection Hid as <-.
+    destruct (Hstep j L HL) as (L1 & HL1 & Hg1 & Hv1 & Hf1 & Ha1).
+    destruct (IH _ _ H HI1 Hwf1 Hpos' (fun t Ht => Hdiag t (or_intror Ht)) j L1 HL1) as (L' & HL' & Hg' & Hsame).
+    exists L'. split; [exact HL'|]. split; [rewrite Hg'; exact Hg1|].
+    intro i. destruct (Hsame i) as (Hvi & Hfi). rewrite Hvi, Hfi, (Hv1 i).
+    split; [destruct ((j =? ks) && (i_s =? i))%nat; ring|].
+    destruct (Nat.eq_dec j ks) as [Ej|Nj]; [destruct (Nat.eq_dec i i_s) as [Ei|Ni]|].
+    + subst j i. rewrite HLs in HL. injection HL as <-.
+      specialize (Ha1 eq_refl). rewrite !Nat.eqb_refl in Ha1. cbn [andb] in Ha1.
+      assert (Hvs : vol_at L1 i_s == vol_at Ls i_s).
+      { rewrite (Hv1 i_s), !Nat.eqb_refl. cbn [andb]. ring. }
+      rewrite Hvs in Ha1.
+      assert (Hnz : ~ vol_at Ls i_s == 0) by lra.
+      apply (Qmult_inj_l _ _ (vol_at Ls i_s) Hnz). rewrite Ha1. ring.
+    + rewrite (Hf1 i) by (intros [_ Ei]; exact (Ni Ei)). reflexivity.
+    + rewrite (Hf1 i) by (intros [Ej _]; exact (Nj Ej)). reflexivity.
+  - cbn [exec] in H. inversion Hpos as [|a1 l1 _ Hpos']; subst a1 l1.
+    exact (IH _ _ H HI (wf_set_wl _ _ Hwf) Hpos' Hdiag j L HL).
+Qed.
+
+End FractionsExec.
+
+(* ------------------------------------------------------------------------------------------ *)
+(** * tracked fractions: transfer *)
+
+(** same geometry, volumes and component table *)
+Definition same_cv (L2 L' : labware) : Prop :=
+  lw_geom L' = lw_geom L2 /\ lw_vols L' = lw_vols L2 /\ lw_comp L' = lw_comp L2.
+
+Lemma condense_at_nth s k0 n lab j L2 : nth_error (st_lw s) j = Some L2 ->
+  exists L', nth_error (st_lw (condense_at s k0 n lab)) j = Some L' /\ same_cv L2 L'.
+Proof.
+  intro HL. unfold condense_at. destruct (nth_error (st_lw s) k0) as [Lk|] eqn:Ek.
+  - cbn [set_lw st_lw]. destruct (Nat.eq_dec k0 j) as [->|Hne].
+    + rewrite Ek in HL. injection HL as <-. exists (condense_log Lk n lab).
+      split; [apply RefinementProofs.nth_error_upd_same; eapply nth_error_lt; exact Ek|].
+      destruct (condense_log_comp Lk n lab) as (C1 & C2 & C3). repeat split; assumption.
+    + exists L2. split; [rewrite nth_error_upd_other by exact Hne; exact HL|repeat split].
+  - exists L2. split; [exact HL|repeat split].
+Qed.
+
+Lemma same_cv_trans L1 L2 L3 : same_cv L1 L2 -> same_cv L2 L3 -> same_cv L1 L3.
+Proof. intros (A1 & A2 & A3) (B1 & B2 & B3). repeat split; congruence. Qed.
+
+(** an accepted transfer is the execution of its plan, followed by log condensation *)
+Lemma transfer_exec_form s ks swells kd dwells vols label ws pb kw s' :
+  transfer s ks swells kd dwells vols label ws pb kw = (s', None) ->
+  exists Ls Ld mode w s2,
+    nth_error (st_lw s) ks = Some Ls /\ nth_error (st_lw s) kd = Some Ld /\
+    same_cfg (st_wl s) w /\
+    exec (set_wl s w) ks kd (plan (w_autosplit w) (w_max w) mode (t_triples swells dwells vols)) ws kw
+      = (s2, None) /\
+    (forall v, In v (t_vol swells dwells vols) -> 0 <= v) /\
+    forall j L2, nth_error (st_lw s2) j = Some L2 ->
+      exists L', nth_error (st_lw s') j = Some L' /\ same_cv L2 L'.
+Proof.
+  unfold transfer. cbv zeta. fold (t_n swells dwells vols).
+  fold (t_src swells dwells vols). fold (t_dst swells dwells vols). fold (t_vol swells dwells vols).
+  fold (t_triples swells dwells vols).
+  intro H.
+  destruct (w_dev (st_wl s)) eqn:Edev; [| |discriminate].
+  all: destruct (nth_error (st_lw s) ks) as [Ls|] eqn:Eks; [|discriminate].
+  all: destruct (nth_error (st_lw s) kd) as [Ld|] eqn:Ekd; [|discriminate].
+  all: match type of H with (if ?c then _ else _) = _ => destruct c; [discriminate|] end.
+  all: match type of H with (if ?c then _ else _) = _ => destruct c eqn:E2; [discriminate|] end.
+  all: match type of H with (if ?c then _ else _) = _ => destruct c; [discriminate|] end.
+  all: destruct (optimize_partition_by (is_trough (lw_geom Ls)) (is_trough (lw_geom Ld)) pb)
+         as [mode|eo] eqn:Eo; [|discriminate].
+  all: destruct (comment (st_wl s) label) as [w oc] eqn:Ec.
+  all: pose proof (comment_cfg _ _ _ _ Ec) as HC.
+  all: destruct oc as [ec|]; [discriminate|].
+  all: match type of H with context [exec ?s0 ?k1 ?k2 ?acts ?w1 ?w2] =>
+         destruct (exec s0 k1 k2 acts w1 w2) as [s2 oe] eqn:Ee end.
+  all: destruct oe as [ee|]; [discriminate|].
+  all: exists Ls, Ld, mode, w, s2.
+  all: split; [reflexivity|]. all: split; [reflexivity|]. all: split; [exact HC|]. all: split; [exact Ee|].
+  all: split; [intros v Hv; apply (existsb_false_forall _ _ E2) in Hv; apply Qltb_false; exact Hv|].
+  all: intros j L2 HL2.
+  all: destruct (ks =? kd)%nat; injection H as <-.
+  all: try (apply condense_at_nth; exact HL2).
+  all: destruct (condense_at_nth s2 ks (n_steps (plan (w_autosplit w) (w_max w) mode (t_triples swells dwells vols)))
+               (lvh_label label (lvh_extra (w_autosplit w) (w_max w) (t_triples swells dwells vols))) j L2 HL2)
+         as (L3 & HL3 & Hcv3).
+  all: destruct (condense_at_nth _ kd (n_steps (plan (w_autosplit w) (w_max w) mode (t_triples swells dwells vols)))
+               (lvh_label label (lvh_extra (w_autosplit w) (w_max w) (t_triples swells dwells vols))) j L3 HL3)
+         as (L4 & HL4 & Hcv4).
+  all: exists L4; split; [exact HL4|exact (same_cv_trans _ _ _ Hcv3 Hcv4)].
+Qed.
+
+Lemma plan_step_triple a m mode T t : In t (steps_of (plan a m mode T)) -> exists t0, In t0 T /\ fst t0 = fst t.
+Proof.
+  destruct t as [[sw dw] v]. intro H. apply steps_of_In in H. apply plan_step_origin in H.
+  destruct H as (v0 & Hin & _). exists (sw, dw, v0). split; [exact Hin|reflexivity].
+Qed.
+
+Section FractionsTransfer.
+Variable k : string.
+
+Lemma frac_same_cv L2 L' i : same_cv L2 L' -> frac L' k i = frac L2 k i /\ vol_at L' i = vol_at L2 i.
+Proof. intros (_ & Hv & Hc). unfold frac, vol_at. rewrite Hv, Hc. split; reflexivity. Qed.
+
+(** a well that is no destination of the transfer keeps its fractions *)
+Lemma transfer_frame s ks sw kd dw vols label ws pb kw s' :
+  transfer s ks sw kd dw vols label ws pb kw = (s', None) -> st_inv s -> wf_state s ->
+  forall j L, nth_error (st_lw s) j = Some L ->
+    exists L', nth_error (st_lw s') j = Some L' /\
+      forall i, (j = kd -> forall t, In t (t_triples sw dw vols) -> idx_is L i (snd (fst t)) = false) ->
+                frac L' k i = frac L k i.
+Proof.
+  intros H HI Hwf j L HL.
+  destruct (transfer_exec_form _ _ _ _ _ _ _ _ _ _ _ H) as (Ls & Ld & mode & w & s2 & _ & _ & _ & He & _ & Hcv).
+  destruct (exec_frame k _ _ _ _ _ _ _ He (st_inv_set_wl s w HI) (wf_set_wl _ _ Hwf) (plan_pos _ _ _ _) j L HL)
+    as (L2 & HL2 & _ & Hf2).
+  destruct (Hcv j L2 HL2) as (L' & HL' & Hcv').
+  exists L'. split; [exact HL'|]. intros i Hnd.
+  rewrite (proj1 (frac_same_cv L2 L' i Hcv')). apply Hf2.
+  intros Ej t Ht. destruct (plan_step_triple _ _ _ _ _ Ht) as (t0 & Ht0 & E0).
+  rewrite <- E0. exact (Hnd Ej t0 Ht0).
+Qed.
+
+(** all liquid arriving in well [i0] comes from the real well [a0], which receives nothing, and
+    [i0] gives nothing away *)
+Lemma transfer_uniform s ks sw kd dw vols label ws pb kw s' i0 a0 Ls Ld :
+  transfer s ks sw kd dw vols label ws pb kw = (s', None) -> st_inv s -> wf_state s ->
+  0 < w_max (st_wl s) ->
+  nth_error (st_lw s) ks = Some Ls -> nth_error (st_lw s) kd = Some Ld ->
+  (forall t, In t (t_triples sw dw vols) -> idx_is Ld i0 (snd (fst t)) = true ->
+             lw_index Ls (fst (fst t)) = Some a0) ->
+  (ks = kd -> forall t, In t (t_triples sw dw vols) -> idx_is Ld a0 (snd (fst t)) = false) ->
+  (ks = kd -> forall t, In t (t_triples sw dw vols) -> idx_is Ls i0 (fst (fst t)) = false) ->
+  exists Ld', nth_error (st_lw s') kd = Some Ld' /\
+    vol_at Ld' i0 * frac Ld' k i0 ==
+    vol_at Ld i0 * frac Ld k i0 + well_in Ld i0 (t_triples sw dw vols) * frac Ls k a0.
+Proof.
+  intros H HI Hwf Hm HLs HLd H1 H2 H3.
+  destruct (transfer_exec_form _ _ _ _ _ _ _ _ _ _ _ H) as (Ls0 & Ld0 & mode & w & s2 & _ & _ & HC & He & Hnn & Hcv).
+  destruct (exec_uniform k ks kd ws kw i0 a0 _ _ _ Ls Ld He (st_inv_set_wl s w HI) (wf_set_wl _ _ Hwf)
+              (plan_pos _ _ _ _) HLs HLd) as (Ld2 & HLd2 & Hamt).
+  { intros t Ht Hd. destruct (plan_step_triple _ _ _ _ _ Ht) as (t0 & Ht0 & E0).
+    rewrite <- E0 in *. exact (H1 t0 Ht0 Hd). }
+  { intros Ek t Ht. destruct (plan_step_triple _ _ _ _ _ Ht) as (t0 & Ht0 & E0). rewrite <- E0. exact (H2 Ek t0 Ht0). }
+  { intros Ek t Ht. destruct (plan_step_triple _ _ _ _ _ Ht) as (t0 & Ht0 & E0). rewrite <- E0. exact (H3 Ek t0 Ht0). }
+  destruct (Hcv kd Ld2 HLd2) as (Ld' & HLd' & Hcv').
+  exists Ld'. split; [exact HLd'|].
+  destruct (frac_same_cv Ld2 Ld' i0 Hcv') as (-> & ->). rewrite Hamt.
+  assert (Hall : Forall (fun t : triple => 0 <= snd t) (t_triples sw dw vols)).
+  { apply Forall_forall. intros [sd v] Ht. apply zip_In in Ht. cbn [snd]. apply Hnn. exact (proj2 Ht). }
+  assert (Hmw : 0 < w_max w) by (rewrite (proj1 HC); exact Hm).
+  rewrite !well_in_gsum, (gsum_plan _ _ _ _ _ Hmw Hall). reflexivity.
+Qed.
+
+(** source and destination well coincide in every triple: volumes and fractions stay *)
+Lemma transfer_diag s ks sw vols label ws pb kw s' :
+  transfer s ks sw ks sw vols label ws pb kw = (s', None) -> st_inv s -> wf_state s ->
+  forall j L, nth_error (st_lw s) j = Some L ->
+    exists L', nth_error (st_lw s') j = Some L' /\
+      forall i, vol_at L' i == vol_at L i /\ frac L' k i == frac L k i.
+Proof.
+  intros H HI Hwf j L HL.
+  destruct (transfer_exec_form _ _ _ _ _ _ _ _ _ _ _ H) as (Ls & Ld & mode & w & s2 & _ & _ & _ & He & _ & Hcv).
+  destruct (exec_diag k _ _ _ _ _ _ He (st_inv_set_wl s w HI) (wf_set_wl _ _ Hwf) (plan_pos _ _ _ _)) with (j := j) (L := L)
+    as (L2 & HL2 & _ & Hsame).
+  { intros t Ht. destruct (plan_step_triple _ _ _ _ _ Ht) as (t0 & Ht0 & E0). rewrite <- E0.
+    exact (t_triples_diag _ _ _ Ht0). }
+  { exact HL. }
+  destruct (Hcv j L2 HL2) as (L' & HL' & Hcv').
+  exists L'. split; [exact HL'|]. intro i.
+  destruct (frac_same_cv L2 L' i Hcv') as (-> & ->). exact (Hsame i).
+Qed.
+
+End FractionsTransfer.
+
+(* ------------------------------------------------------------------------------------------ *)
+(** * tracked fractions during [to_worklist] *)
+
+Lemma zip3_In (A B : list string) (V : list Q) n t :
+  length A = n -> length B = n -> length V = n -> In t (zip (zip A B) V) ->
+  exists m, (m < n)%nat /\ t = (nth m A EmptyString, nth m B EmptyString, nth m V 0).
+Proof.
+  intros HA HB HV H. rewrite (zip3_seq A B V n HA HB HV) in H. apply in_map_iff in H.
+  destruct H as (m & <- & Hm). apply in_seq in Hm. exists m. split; [lia|reflexivity].
+Qed.
+
+Section Concentration.
+Variables (k : string) (a : twl_args) (p : dplan).
+Variables (ideal : list (list Q)) (stock : Q) (vmax : list Q) (mt : Q).
+Variables (P0 St0 D0 : labware) (vs vd : nat).
+Hypothesis Hplan : plan_core ideal stock vmax mt = Ok p.
+Hypothesis Hrect : Forall (fun col => length col = tw_R a) ideal.
+Hypothesis Lv : length vmax = length ideal.
+Hypothesis Hps : tw_plate a <> tw_stock a.
+Hypothesis Hpd : tw_plate a <> tw_diluent a.
+Hypothesis Hsd : tw_stock a <> tw_diluent a.
+Hypothesis Hdest : forall d, tw_dest a = Some d -> d <> tw_plate a /\ d <> tw_stock a /\ d <> tw_diluent a.
+Hypothesis HPv : g_vrows (lw_geom P0) = None.
+Hypothesis HR : (tw_R a <= n_row_ids (lw_geom P0))%nat.
+Hypothesis HC : (length ideal <= g_cols (lw_geom P0))%nat.
+Hypothesis HvS : g_vrows (lw_geom St0) = Some vs.
+Hypothesis HvD : g_vrows (lw_geom D0) = Some vd.
+Hypothesis HgS : wf_geom (lw_geom St0).
+Hypothesis HgD : wf_geom (lw_geom D0).
+
+Let g := g_cols (lw_geom P0).
+Let gs := lw_geom St0.
+Let gd := lw_geom D0.
+Let pl := tw_plate a.
+
+(** volume / fraction of [k] in well [i] of labware [j] *)
+Definition lwv (s : state) (j i : nat) : Q :=
+  match nth_error (st_lw s) j with Some L => vol_at L i | None => 0 end.
+Definition lwf (s : state) (j i : nat) : Q :=
+  match nth_error (st_lw s) j with Some L => frac L k i | None => 0 end.
+Definition PV (s : state) (r c : nat) : Q := lwv s pl (r * g + c).
+Definition PF (s : state) (r c : nat) : Q := lwf s pl (r * g + c).
+Definition SF (s : state) : Q := lwf s (tw_stock a) (tw_stock_column a).
+Definition DF (s : state) : Q := lwf s (tw_diluent a) (tw_diluent_column a).
+
+Definition Good (s : state) : Prop :=
+  wf_state s /\ st_inv s /\ 0 < w_max (st_wl s) /\
+  (exists P, nth_error (st_lw s) pl = Some P /\ lw_geom P = lw_geom P0) /\
+  (exists St, nth_error (st_lw s) (tw_stock a) = Some St /\ lw_geom St = lw_geom St0) /\
+  (exists D, nth_error (st_lw s) (tw_diluent a) = Some D /\ lw_geom D = lw_geom D0).
+
+Lemma good_transfer s ks sw kd dw vols label ws pb kw s' :
+  transfer s ks sw kd dw vols label ws pb kw = (s', None) -> Good s -> Good s'.
+Proof.
+  intros H (Hwf & HI & Hm & (P & HP & HgP) & (St & HSt & HgSt) & (D & HD & HgDd)).
+  destruct (transfer_ledger _ _ _ _ _ _ _ _ _ _ _ H Hwf Hm) as ((_ & Hled) & Hcfg & _).
+  split; [pose proof (transfer_wf s ks sw kd dw vols label ws pb kw Hwf) as Hw; rewrite H in Hw; exact Hw|].
+  split; [pose proof (transfer_inv s ks sw kd dw vols label ws pb kw HI) as Hi; rewrite H in Hi; exact Hi|].
+  split; [rewrite (proj1 Hcfg); exact Hm|].
+  split; [|split].
+  - destruct (Hled _ _ HP) as (P' & HP' & Hg & _). exists P'. split; [exact HP'|congruence].
+  - destruct (Hled _ _ HSt) as (S' & HS' & Hg & _). exists S'. split; [exact HS'|congruence].
+  - destruct (Hled _ _ HD) as (D' & HD' & Hg & _). exists D'. split; [exact HD'|congruence].
+Qed.
+
+Lemma good_commit s s' : step s OCommit = (s', None) -> Good s ->
+  Good s' /\ st_lw s' = st_lw s.
+Proof.
+  cbn [step]. unfold on_wl, commit. intro H. injection H as <-. intro HG. split; [exact HG|reflexivity].
+Qed.
+
+Lemma lwv_eq s j L i : nth_error (st_lw s) j = Some L -> lwv s j i = vol_at L i.
+Proof. intro H. unfold lwv. rewrite H. reflexivity. Qed.
+Lemma lwf_eq s j L i : nth_error (st_lw s) j = Some L -> lwf s j i = frac L k i.
+Proof. intro H. unfold lwf. rewrite H. reflexivity. Qed.
+
+(** volumes of any transfer, in accessor form *)
+Lemma transfer_lwv s ks sw kd dw vols label ws pb kw s' j L i :
+  transfer s ks sw kd dw vols label ws pb kw = (s', None) -> Good s ->
+  nth_error (st_lw s) j = Some L ->
+  lwv s' j i == lwv s j i + op_delta L j (OTransfer ks sw kd dw vols label ws pb kw) i.
+Proof.
+  intros H (Hwf & _ & Hm & _) HL.
+  destruct (transfer_ledger _ _ _ _ _ _ _ _ _ _ _ H Hwf Hm) as ((_ & Hled) & _).
+  destruct (Hled _ _ HL) as (L' & HL' & _ & Hv).
+  rewrite (lwv_eq s' j L' i HL'), (lwv_eq s j L i HL), Hv. cbn [op_delta]. ring.
+Qed.
+
+(** fractions of a labware that is not the destination *)
+Lemma transfer_lwf_other s ks sw kd dw vols label ws pb kw s' j i :
+  transfer s ks sw kd dw vols label ws pb kw = (s', None) -> Good s -> j <> kd ->
+  (j < length (st_lw s))%nat -> lwf s' j i = lwf s j i.
+Proof.
+  intros H (Hwf & HI & _) Hne Hj.
+  destruct (nth_error (st_lw s) j) as [L|] eqn:HL; [|apply nth_error_None in HL; lia].
+  destruct (transfer_frame k _ _ _ _ _ _ _ _ _ _ _ H HI Hwf j L HL) as (L' & HL' & Hf).
+  rewrite (lwf_eq s' j L' i HL'), (lwf_eq s j L i HL). apply Hf. intro E. congruence.
+Qed.
+
+
+Lemma trough_wells_nonempty L v col : wf_geom (lw_geom L) -> g_vrows (lw_geom L) = Some v ->
+  trough_column_wells (lw_geom L) col <> [].
+Proof.
+  intros Hg Hv. destruct (n_row_ids_trough _ _ Hg Hv) as (En & Hn1 & _).
+  unfold trough_column_wells. rewrite En. destruct v as [|v']; [lia|]. discriminate.
+Qed.
+
+Let cyc_s := cycle_wells (tw_R a) (trough_column_wells gs (tw_stock_column a)).
+Let cyc_d := cycle_wells (tw_R a) (trough_column_wells gd (tw_diluent_column a)).
+
+Lemma cyc_s_length : length cyc_s = tw_R a.
+Proof. apply cycle_wells_length. exact (trough_wells_nonempty St0 vs _ HgS HvS). Qed.
+Lemma cyc_d_length : length cyc_d = tw_R a.
+Proof. apply cycle_wells_length. exact (trough_wells_nonempty D0 vd _ HgD HvD). Qed.
+
+(** facts about a plate with the geometry of [P0] *)
+Section PlateNow.
+Variable P : labware.
+Hypothesis HgP : lw_geom P = lw_geom P0.
+
+Lemma pidx_now r c : pidx P r c = (r * g + c)%nat.
+Proof. unfold pidx, g. rewrite HgP. reflexivity. Qed.
+
+Lemma plate_idx_now r c r' c' : (r' < tw_R a)%nat -> (c' < g)%nat -> (c < g)%nat ->
+  idx_is P (r * g + c) (well_id r' c') = ((r' =? r) && (c' =? c))%nat.
+Proof.
+  intros Hr' Hc' Hc. unfold g in *. rewrite <- HgP.
+  apply plate_idx_is; rewrite HgP; [exact HPv|lia|exact Hc'|exact Hc].
+Qed.
+
+Lemma well_in_col_now (A : list string) (V : list Q) col r c :
+  (r < tw_R a)%nat -> (c < g)%nat -> (col < g)%nat -> length A = tw_R a -> length V = tw_R a ->
+  well_in P (r * g + c) (zip (zip A (column_wells (tw_R a) col)) V) == if (col =? c)%nat then nth r V 0 else 0.
+Proof.
+  intros Hr Hc Hcol HA HV. rewrite <- pidx_now. unfold g in *.
+  apply well_in_plate_col; try assumption; rewrite HgP; assumption.
+Qed.
+
+Lemma well_out_col_now (B : list string) (V : list Q) col r c :
+  (r < tw_R a)%nat -> (c < g)%nat -> (col < g)%nat -> length B = tw_R a -> length V = tw_R a ->
+  well_out P (r * g + c) (zip (zip (column_wells (tw_R a) col) B) V) == if (col =? c)%nat then nth r V 0 else 0.
+Proof.
+  intros Hr Hc Hcol HB HV. rewrite <- pidx_now. unfold g in *.
+  apply well_out_plate_col; try assumption; rewrite HgP; assumption.
+Qed.
+
+(** the destinations of a transfer into column [col] are the wells of that column, in order *)
+Lemma col_dst_not (A : list string) (V : list Q) col r c t :
+  (r < tw_R a)%nat -> (c < g)%nat -> (col < g)%nat -> length A = tw_R a -> length V = tw_R a ->
+  c <> col -> In t (zip (zip A (column_wells (tw_R a) col)) V) -> idx_is P (r * g + c) (snd (fst t)) = false.
+Proof.
+  intros Hr Hc Hcol HA HV Hne Ht.
+  destruct (zip3_In _ _ _ _ _ HA (column_wells_length _ _) HV Ht) as (m & Hm & ->). cbn [fst snd].
+  rewrite column_wells_nth by exact Hm. rewrite plate_idx_now by assumption.
+  destruct (Nat.eqb_spec col c) as [E|_]; [congruence|]. apply andb_false_r.
+Qed.
+
+End PlateNow.
+
+
+Lemma t_src_A1 sw dw (ws : list Q) n : length sw = n -> length dw = n -> length ws = n ->
+  t_src (A1 sw) (A1 dw) (A1 ws) = sw.
+Proof.
+  intros H1 H2 H3. unfold t_src, t_n. cbn [flattenF]. rewrite H1, H2, H3, !Nat.max_id.
+  apply broadcast_len. exact H1.
+Qed.
+
+Lemma good_plate s : Good s -> exists P, nth_error (st_lw s) pl = Some P /\ lw_geom P = lw_geom P0.
+Proof. intros (_ & _ & _ & HP & _). exact HP. Qed.
+
+(** a transfer from column [tcol] of a trough (labware [kt]) into column [cx] of the plate *)
+Lemma trough_col_effect s s' kt T0 vt tcol cyc cx (W : list Q) label ws kw :
+  transfer s kt (A1 cyc) pl (col_wells a cx) (A1 W) label ws "auto" kw = (s', None) -> Good s ->
+  kt <> pl -> (exists T, nth_error (st_lw s) kt = Some T /\ lw_geom T = lw_geom T0) ->
+  g_vrows (lw_geom T0) = Some vt ->
+  (forall w, In w cyc -> In w (trough_column_wells (lw_geom T0) tcol)) ->
+  length cyc = tw_R a -> length W = tw_R a -> (cx < g)%nat ->
+  Good s' /\
+  (forall j i, j <> pl -> (j < length (st_lw s))%nat -> lwf s' j i = lwf s j i) /\
+  (forall r c, (r < tw_R a)%nat -> (c < g)%nat ->
+     PV s' r c == PV s r c + (if (cx =? c)%nat then nth r W 0 else 0)) /\
+  (forall r c, (r < tw_R a)%nat -> (c < g)%nat -> c <> cx -> PF s' r c = PF s r c) /\
+  (forall r, (r < tw_R a)%nat ->
+     PV s' r cx * PF s' r cx == PV s r cx * PF s r cx + nth r W 0 * lwf s kt tcol).
+Proof.
+  intros H HG Hkt (T & HT & HgT) Hvt Hcyc Lc LW Hcx.
+  pose proof HG as (Hwf & HI & Hm & (P & HP & HgP) & _).
+  assert (ET : t_triples (A1 cyc) (col_wells a cx) (A1 W) = zip (zip cyc (column_wells (tw_R a) cx)) W).
+  { unfold col_wells. apply (t_triples_A1 _ _ _ (tw_R a)); [exact Lc|apply column_wells_length|exact LW]. }
+  assert (Ekt : (pl =? kt)%nat = false) by (apply Nat.eqb_neq; congruence).
+  split; [exact (good_transfer _ _ _ _ _ _ _ _ _ _ _ H HG)|]. split; [|split; [|split]].
+  - intros j i Hj Hlt. exact (transfer_lwf_other _ _ _ _ _ _ _ _ _ _ _ j i H HG Hj Hlt).
+  - intros r c Hr Hc. unfold PV. rewrite (transfer_lwv _ _ _ _ _ _ _ _ _ _ _ pl P _ H HG HP).
+    cbn [op_delta]. rewrite Nat.eqb_refl, Ekt, ET, (well_in_col_now P HgP) by assumption. ring.
+  - intros r c Hr Hc Hne. unfold PF.
+    destruct (transfer_frame k _ _ _ _ _ _ _ _ _ _ _ H HI Hwf pl P HP) as (P' & HP' & Hf).
+    rewrite (lwf_eq s' pl P' _ HP'), (lwf_eq s pl P _ HP). apply Hf. intros _ t Ht. rewrite ET in Ht.
+    exact (col_dst_not P HgP cyc W cx r c t Hr Hc Hcx Lc LW Hne Ht).
+  - intros r Hr.
+    destruct (transfer_ledger _ _ _ _ _ _ _ _ _ _ _ H Hwf Hm)
+      as (_ & _ & _ & _ & _ & Ls & Ld & HLs & HLd & Hres & _).
+    rewrite HT in HLs. injection HLs as <-.
+    destruct (transfer_uniform k _ _ _ _ _ _ _ _ _ _ _ (r * g + cx)%nat tcol T P H HI Hwf Hm HT HP)
+      as (P' & HP' & Hamt).
+    + intros t Ht _. rewrite ET in Ht.
+      destruct (zip3_In _ _ _ _ _ Lc (column_wells_length _ _) LW Ht) as (m & Hm' & ->). cbn [fst snd].
+      assert (Hin : In (nth m cyc EmptyString) cyc) by (apply nth_In; rewrite Lc; exact Hm').
+      pose proof (Hres _ ltac:(unfold col_wells; rewrite (t_src_A1 _ _ _ (tw_R a) Lc (column_wells_length _ _) LW); exact Hin)) as Hne.
+      destruct (trough_column_wells_In _ _ _ (Hcyc _ Hin)) as (r' & Hr' & Ew). rewrite Ew in *.
+      assert (HvT : g_vrows (lw_geom T) = Some vt) by (rewrite HgT; exact Hvt).
+      rewrite <- HgT in Hr'. exact (proj1 (trough_lw_index T vt r' tcol HvT Hr' Hne)).
+    + intro E. congruence.
+    + intro E. congruence.
+    + unfold PV, PF. rewrite (lwv_eq s' pl P' _ HP'), (lwf_eq s' pl P' _ HP'), (lwv_eq s pl P _ HP), (lwf_eq s pl P _ HP).
+      rewrite Hamt, ET, (well_in_col_now P HgP) by assumption. rewrite Nat.eqb_refl.
+      rewrite (lwf_eq s kt T _ HT). reflexivity.
+Qed.
+
+
+Lemma plate_lw_index_now P r c : lw_geom P = lw_geom P0 -> (r < tw_R a)%nat -> (c < g)%nat ->
+  lw_index P (well_id r c) = Some (r * g + c)%nat.
+Proof.
+  intros HgP Hr Hc. unfold g in *. rewrite <- HgP. apply plate_lw_index; rewrite HgP; [exact HPv|lia|exact Hc].
+Qed.
+
+Lemma transfer_length s ks sw kd dw vols label ws pb kw s' :
+  transfer s ks sw kd dw vols label ws pb kw = (s', None) -> Good s -> length (st_lw s') = length (st_lw s).
+Proof.
+  intros H (Hwf & _ & Hm & _).
+  exact (proj1 (proj1 (transfer_ledger _ _ _ _ _ _ _ _ _ _ _ H Hwf Hm))).
+Qed.
+
+(** a mixing transfer: a column onto itself *)
+Lemma mix_effect s s' cx mv label ws kw :
+  transfer s pl (col_wells a cx) pl (col_wells a cx) (A0 mv) label ws "auto" kw = (s', None) -> Good s ->
+  Good s' /\
+  forall j i, (j < length (st_lw s))%nat -> lwv s' j i == lwv s j i /\ lwf s' j i == lwf s j i.
+Proof.
+  intros H HG. pose proof HG as (Hwf & HI & _).
+  split; [exact (good_transfer _ _ _ _ _ _ _ _ _ _ _ H HG)|].
+  intros j i Hj. destruct (nth_error (st_lw s) j) as [L|] eqn:HL; [|apply nth_error_None in HL; lia].
+  destruct (transfer_diag k _ _ _ _ _ _ _ _ _ H HI Hwf j L HL) as (L' & HL' & Hsame).
+  rewrite (lwv_eq s' j L' i HL'), (lwf_eq s' j L' i HL'), (lwv_eq s j L i HL), (lwf_eq s j L i HL).
+  exact (Hsame i).
+Qed.
+
+(** the transfer from column [cx] to column [cj] of the plate *)
+Lemma serial_effect s s' cx cj (W : list Q) label ws kw :
+  transfer s pl (col_wells a cx) pl (col_wells a cj) (A1 W) label ws "auto" kw = (s', None) -> Good s ->
+  cx <> cj -> (cx < g)%nat -> (cj < g)%nat -> length W = tw_R a ->
+  Good s' /\
+  (forall j i, j <> pl -> (j < length (st_lw s))%nat -> lwf s' j i = lwf s j i) /\
+  (forall r c, (r < tw_R a)%nat -> (c < g)%nat ->
+     PV s' r c == PV s r c + (if (cj =? c)%nat then nth r W 0 else 0) - (if (cx =? c)%nat then nth r W 0 else 0)) /\
+  (forall r c, (r < tw_R a)%nat -> (c < g)%nat -> c <> cj -> PF s' r c = PF s r c) /\
+  (forall r, (r < tw_R a)%nat ->
+     PV s' r cj * PF s' r cj == PV s r cj * PF s r cj + nth r W 0 * PF s r cx).
+Proof.
+  intros H HG Hne Hcx Hcj LW.
+  pose proof HG as (Hwf & HI & Hm & (P & HP & HgP) & _).
+  assert (ET : t_triples (col_wells a cx) (col_wells a cj) (A1 W) =
+               zip (zip (column_wells (tw_R a) cx) (column_wells (tw_R a) cj)) W).
+  { unfold col_wells. apply (t_triples_A1 _ _ _ (tw_R a)); [apply column_wells_length|apply column_wells_length|exact LW]. }
+  split; [exact (good_transfer _ _ _ _ _ _ _ _ _ _ _ H HG)|]. split; [|split; [|split]].
+  - intros j i Hj Hlt. exact (transfer_lwf_other _ _ _ _ _ _ _ _ _ _ _ j i H HG Hj Hlt).
+  - intros r c Hr Hc. unfold PV. rewrite (transfer_lwv _ _ _ _ _ _ _ _ _ _ _ pl P _ H HG HP).
+    cbn [op_delta]. rewrite Nat.eqb_refl, ET.
+    rewrite (well_in_col_now P HgP) by (try assumption; apply column_wells_length).
+    rewrite (well_out_col_now P HgP) by (try assumption; apply column_wells_length). ring.
+  - intros r c Hr Hc Hnc. unfold PF.
+    destruct (transfer_frame k _ _ _ _ _ _ _ _ _ _ _ H HI Hwf pl P HP) as (P' & HP' & Hf).
+    rewrite (lwf_eq s' pl P' _ HP'), (lwf_eq s pl P _ HP). apply Hf. intros _ t Ht. rewrite ET in Ht.
+    exact (col_dst_not P HgP _ W cj r c t Hr Hc Hcj (column_wells_length _ _) LW Hnc Ht).
+  - intros r Hr.
+    destruct (transfer_uniform k _ _ _ _ _ _ _ _ _ _ _ (r * g + cj)%nat (r * g + cx)%nat P P H HI Hwf Hm HP HP)
+      as (P' & HP' & Hamt).
+    + intros t Ht Hd. rewrite ET in Ht.
+      destruct (zip3_In _ _ _ _ _ (column_wells_length _ _) (column_wells_length _ _) LW Ht) as (m & Hm' & ->).
+      cbn [fst snd] in *. rewrite column_wells_nth in * by exact Hm'.
+      rewrite (plate_idx_now P HgP) in Hd by assumption.
+      apply andb_true_iff in Hd. destruct Hd as [Hd _]. apply Nat.eqb_eq in Hd. subst m.
+      apply plate_lw_index_now; assumption.
+    + intros _ t Ht. rewrite ET in Ht.
+      destruct (zip3_In _ _ _ _ _ (column_wells_length _ _) (column_wells_length _ _) LW Ht) as (m & Hm' & ->).
+      cbn [fst snd]. rewrite column_wells_nth by exact Hm'. rewrite (plate_idx_now P HgP) by assumption.
+      destruct (Nat.eqb_spec cj cx) as [E|_]; [congruence|]. apply andb_false_r.
+    + intros _ t Ht. rewrite ET in Ht.
+      destruct (zip3_In _ _ _ _ _ (column_wells_length _ _) (column_wells_length _ _) LW Ht) as (m & Hm' & ->).
+      cbn [fst snd]. rewrite column_wells_nth by exact Hm'. rewrite (plate_idx_now P HgP) by assumption.
+      destruct (Nat.eqb_spec cx cj) as [E|_]; [congruence|]. apply andb_false_r.
+    + unfold PV, PF. rewrite (lwv_eq s' pl P' _ HP'), (lwf_eq s' pl P' _ HP'), !(lwv_eq s pl P _ HP), !(lwf_eq s pl P _ HP).
+      rewrite Hamt, ET, (well_in_col_now P HgP) by (try assumption; apply column_wells_length).
+      rewrite Nat.eqb_refl. reflexivity.
+Qed.
+
+(** the transfer of column [cx] to the destination plate *)
+Lemma dest_effect s s' cx d vdst label ws kw :
+  transfer s pl (col_wells a cx) d (col_wells a cx) (A0 vdst) label ws "auto" kw = (s', None) -> Good s ->
+  d <> pl -> (cx < g)%nat ->
+  Good s' /\
+  (forall j i, j <> d -> (j < length (st_lw s))%nat -> lwf s' j i = lwf s j i) /\
+  (forall r c, (r < tw_R a)%nat -> (c < g)%nat ->
+     PV s' r c == PV s r c - (if (cx =? c)%nat then vdst else 0)).
+Proof.
+  intros H HG Hd Hcx.
+  pose proof HG as (Hwf & HI & Hm & (P & HP & HgP) & _).
+  split; [exact (good_transfer _ _ _ _ _ _ _ _ _ _ _ H HG)|]. split.
+  - intros j i Hj Hlt. exact (transfer_lwf_other _ _ _ _ _ _ _ _ _ _ _ j i H HG Hj Hlt).
+  - intros r c Hr Hc. unfold PV. rewrite (transfer_lwv _ _ _ _ _ _ _ _ _ _ _ pl P _ H HG HP).
+    cbn [op_delta]. rewrite Nat.eqb_refl.
+    assert (E : (pl =? d)%nat = false) by (apply Nat.eqb_neq; congruence). rewrite E.
+    unfold col_wells.
+    rewrite (t_triples_A1_A0 _ _ _ (tw_R a)); [|lia|apply column_wells_length|apply column_wells_length].
+    rewrite (well_out_col_now P HgP) by (try assumption; try apply column_wells_length; apply repeat_length).
+    rewrite nth_repeat_lt by exact Hr. ring.
+Qed.
+
+
+(* ---- columns of the plate during the run ---- *)
+
+(** everything is as before (up to ==) *)
+Definition AllSame (s s' : state) : Prop :=
+  length (st_lw s') = length (st_lw s) /\
+  forall j i, (j < length (st_lw s))%nat -> lwv s' j i == lwv s j i /\ lwf s' j i == lwf s j i.
+
+Lemma AllSame_refl s : AllSame s s.
+Proof. split; [reflexivity|]. intros j i _. split; reflexivity. Qed.
+
+Lemma AllSame_trans s1 s2 s3 : AllSame s1 s2 -> AllSame s2 s3 -> AllSame s1 s3.
+Proof.
+  intros (L1 & H1) (L2 & H2). split; [congruence|]. intros j i Hj.
+  destruct (H1 j i Hj) as (A1 & A2). destruct (H2 j i ltac:(rewrite L1; exact Hj)) as (B1 & B2).
+  split; [rewrite B1; exact A1|rewrite B2; exact A2].
+Qed.
+
+Lemma commit_same s s' : step s OCommit = (s', None) -> Good s -> Good s' /\ st_lw s' = st_lw s.
+Proof. exact (good_commit s s'). Qed.
+
+Definition Vq (c r : nat) : Q := inject_Z (pvol p c r).
+Definition srcconc (c r : nat) : Q := match psrc p c with None => stock | Some k0 => pconc p k0 r end.
+
+Definition Same (s s' : state) (c : nat) : Prop :=
+  forall r, (r < tw_R a)%nat -> PV s' r c == PV s r c /\ PF s' r c == PF s r c.
+Definition Empty (s : state) (c : nat) : Prop := forall r, (r < tw_R a)%nat -> PV s r c == 0.
+Definition Fed (s : state) (c : nat) : Prop :=
+  forall r, (r < tw_R a)%nat -> PV s r c == Vq c r /\ PV s r c * PF s r c * stock == Vq c r * srcconc c r.
+Definition Done (s : state) (c : nat) : Prop := forall r, (r < tw_R a)%nat -> PF s r c * stock == pconc p c r.
+
+Lemma Same_refl s c : Same s s c.
+Proof. intros r _. split; reflexivity. Qed.
+Lemma Same_trans s1 s2 s3 c : Same s1 s2 c -> Same s2 s3 c -> Same s1 s3 c.
+Proof.
+  intros H1 H2 r Hr. destruct (H1 r Hr) as (A1 & A2). destruct (H2 r Hr) as (B1 & B2).
+  split; [rewrite B1; exact A1|rewrite B2; exact A2].
+Qed.
+Lemma Same_Empty s s' c : Same s s' c -> Empty s c -> Empty s' c.
+Proof. intros H HE r Hr. rewrite (proj1 (H r Hr)). exact (HE r Hr). Qed.
+Lemma Same_Fed s s' c : Same s s' c -> Fed s c -> Fed s' c.
+Proof.
+  intros H HF r Hr. destruct (H r Hr) as (A1 & A2). destruct (HF r Hr) as (F1 & F2).
+  split; [rewrite A1; exact F1|rewrite A1, A2; exact F2].
+Qed.
+Lemma Same_Done s s' c : Same s s' c -> Done s c -> Done s' c.
+Proof. intros H HD r Hr. rewrite (proj2 (H r Hr)). exact (HD r Hr). Qed.
+
+Lemma good_lengths s : Good s ->
+  (pl < length (st_lw s))%nat /\ (tw_stock a < length (st_lw s))%nat /\ (tw_diluent a < length (st_lw s))%nat.
+Proof.
+  intros (_ & _ & _ & (P & HP & _) & (St & HSt & _) & (D & HD & _)).
+  split; [|split]; eapply nth_error_lt; eassumption.
+Qed.
+
+Lemma AllSame_Same s s' c : Good s -> AllSame s s' -> Same s s' c.
+Proof. intros HG (_ & H) r _. unfold PV, PF. apply H. exact (proj1 (good_lengths s HG)). Qed.
+
+Lemma st_lw_same_access s s' : st_lw s' = st_lw s -> AllSame s s'.
+Proof.
+  intro E. split; [rewrite E; reflexivity|]. intros j i _. unfold lwv, lwf. rewrite E. split; reflexivity.
+Qed.
+
+(** the mixing transfers of one instruction *)
+Lemma mix_ops_effect x (f : nat -> scheme) mv lab : forall (l : list nat) s s',
+  run_ops s (flat_map (fun r => [OTransfer pl (col_wells a (i_col x)) pl (col_wells a (i_col x)) (A0 mv)
+                                           lab (f r) "auto" (kw_lc (tw_lc_mix a)); OCommit]) l) = (s', None) ->
+  Good s -> Good s' /\ AllSame s s'.
+Proof.
+  induction l as [|r0 l IH]; intros s s' H HG.
+  - cbn [flat_map run_ops] in H. injection H as <-. split; [exact HG|apply AllSame_refl].
+  - cbn [flat_map app] in H. cbn [run_ops] in H.
+    destruct (step s _) as [s1 [e|]] eqn:E1; [discriminate|].
+    destruct (step s1 OCommit) as [s2 [e|]] eqn:E2; [discriminate|].
+    cbn [step] in E1. destruct (mix_effect _ _ _ _ _ _ _ E1 HG) as (HG1 & Hs1).
+    destruct (commit_same _ _ E2 HG1) as (HG2 & Hs2).
+    destruct (IH _ _ H HG2) as (HG' & Hs').
+    split; [exact HG'|].
+    apply (AllSame_trans s s1); [split; [exact (transfer_length _ _ _ _ _ _ _ _ _ _ _ E1 HG)|exact Hs1]|].
+    apply (AllSame_trans s1 s2); [exact (st_lw_same_access _ _ Hs2)|exact Hs'].
+Qed.
+
+
+Lemma stock_ne_pl : tw_stock a <> pl.
+Proof. intro E. apply Hps. symmetry. exact E. Qed.
+Lemma dil_ne_pl : tw_diluent a <> pl.
+Proof. intro E. apply Hpd. symmetry. exact E. Qed.
+
+Lemma acc_ext s s' : st_lw s' = st_lw s ->
+  (forall r c, PV s' r c = PV s r c /\ PF s' r c = PF s r c) /\ SF s' = SF s /\ DF s' = DF s.
+Proof. intro E. unfold PV, PF, SF, DF, lwv, lwf. rewrite E. repeat split. Qed.
+
+(** the transfers out of column [i_col x] into the columns prepared from it *)
+Lemma serial_ops_effect x : forall (js : list instr) s s',
+  run_ops s (flat_map (fun j => [serial_op a x j; OCommit]) js) = (s', None) -> Good s ->
+  (i_col x < g)%nat ->
+  (forall j, In j js -> (i_col j < g)%nat /\ i_col j <> i_col x /\ length (i_vols j) = tw_R a) ->
+  NoDup (map i_col js) ->
+  Good s' /\ SF s' = SF s /\ DF s' = DF s /\
+  (forall r c, (r < tw_R a)%nat -> (c < g)%nat -> ~ In c (map i_col js) -> PF s' r c = PF s r c) /\
+  (forall r c, (r < tw_R a)%nat -> (c < g)%nat -> c <> i_col x -> ~ In c (map i_col js) ->
+     PV s' r c == PV s r c) /\
+  (forall j, In j js -> forall r, (r < tw_R a)%nat ->
+     PV s' r (i_col j) == PV s r (i_col j) + inject_Z (nth r (i_vols j) 0%Z) /\
+     PV s' r (i_col j) * PF s' r (i_col j) ==
+       PV s r (i_col j) * PF s r (i_col j) + inject_Z (nth r (i_vols j) 0%Z) * PF s r (i_col x)).
+Proof.
+  induction js as [|j js IH]; intros s s' H HG Hcx Hjs ND.
+  - cbn [flat_map run_ops] in H. injection H as <-.
+    split; [exact HG|]. split; [reflexivity|]. split; [reflexivity|].
+    split; [intros; reflexivity|]. split; [intros; reflexivity|]. intros j [].
+  - cbn [flat_map app] in H. cbn [run_ops] in H.
+    destruct (step s (serial_op a x j)) as [s1 [e|]] eqn:E1; [discriminate|].
+    destruct (step s1 OCommit) as [s2 [e|]] eqn:E2; [discriminate|].
+    destruct (Hjs j (or_introl eq_refl)) as (Hcj & Hne & Lj).
+    unfold serial_op in E1. cbn [step] in E1.
+    destruct (serial_effect _ _ (i_col x) (i_col j) (map inject_Z (i_vols j)) _ _ _ E1 HG
+                (fun E => Hne (eq_sym E)) Hcx Hcj ltac:(rewrite map_length; exact Lj))
+      as (HG1 & Hfr1 & HPV1 & HPF1 & Hamt1).
+    destruct (commit_same _ _ E2 HG1) as (HG2 & Hs2).
+    destruct (acc_ext _ _ Hs2) as (Hacc & HaccS & HaccD).
+    cbn [map] in ND. inversion ND as [|c0 l0 Hnotin ND']; subst c0 l0.
+    destruct (IH _ _ H HG2 Hcx (fun j' Hj' => Hjs j' (or_intror Hj')) ND')
+      as (HG' & HS' & HD' & HPF' & HPV' & Hfed').
+    destruct (good_lengths s HG) as (_ & Hls & Hld).
+    split; [exact HG'|].
+    split; [rewrite HS', HaccS; unfold SF; apply Hfr1; [exact stock_ne_pl|exact Hls]|].
+    split; [rewrite HD', HaccD; unfold DF; apply Hfr1; [exact dil_ne_pl|exact Hld]|].
+    split; [|split].
+    + intros r c Hr Hc Hnin. cbn [map In] in Hnin.
+      rewrite HPF' by (try assumption; tauto). rewrite (proj2 (Hacc r c)).
+      apply HPF1; try assumption. intro E. apply Hnin. left. symmetry. exact E.
+    + intros r c Hr Hc Hnx Hnin. cbn [map In] in Hnin.
+      rewrite HPV' by (try assumption; tauto). rewrite (proj1 (Hacc r c)), (HPV1 r c Hr Hc).
+      destruct (Nat.eqb_spec (i_col j) c) as [E|_]; [exfalso; apply Hnin; left; exact E|].
+      destruct (Nat.eqb_spec (i_col x) c) as [E|_]; [exfalso; apply Hnx; symmetry; exact E|]. ring.
+    + intros j' [<-|Hj'] r Hr.
+      * (* the column just served is not touched by the later transfers *)
+        assert (Hpf : PF s' r (i_col j) = PF s1 r (i_col j)).
+        { rewrite HPF' by assumption. exact (proj2 (Hacc r (i_col j))). }
+        assert (Hpv : PV s' r (i_col j) == PV s1 r (i_col j)).
+        { rewrite HPV' by assumption. rewrite (proj1 (Hacc r (i_col j))). reflexivity. }
+        rewrite Hpf, Hpv, (Hamt1 r Hr), (HPV1 r (i_col j) Hr Hcj), nth_inject, Nat.eqb_refl.
+        destruct (Nat.eqb_spec (i_col x) (i_col j)) as [E|_]; [exfalso; exact (Hne (eq_sym E))|].
+        split; ring.
+      * destruct (Hjs j' (or_intror Hj')) as (Hcj' & Hne' & Lj').
+        assert (Hdiff : i_col j <> i_col j').
+        { intro E. apply Hnotin. rewrite E. apply in_map. exact Hj'. }
+        destruct (Hfed' j' Hj' r Hr) as (F1 & F2).
+        rewrite F2, F1, !(proj1 (Hacc r _)), !(proj2 (Hacc r _)).
+        rewrite (HPV1 r (i_col j') Hr Hcj').
+        rewrite (HPF1 r (i_col j') Hr Hcj' (fun E => Hdiff (eq_sym E))).
+        rewrite (HPF1 r (i_col x) Hr Hcx (fun E => Hne (eq_sym E))).
+        destruct (Nat.eqb_spec (i_col j) (i_col j')) as [E|_]; [exfalso; exact (Hdiff E)|].
+        destruct (Nat.eqb_spec (i_col x) (i_col j')) as [E|_]; [exfalso; exact (Hne' (eq_sym E))|].
+        split; ring.
+Qed.
+
+
+Lemma NoDup_map_filter {A B} (f : A -> B) (q : A -> bool) l : NoDup (map f l) -> NoDup (map f (filter q l)).
+Proof.
+  induction l as [|x l IH]; intro H; [constructor|]. cbn [map] in H. inversion H as [|y l0 Hn Hl]; subst y l0.
+  cbn [filter]. destruct (q x); [|exact (IH Hl)]. cbn [map]. constructor; [|exact (IH Hl)].
+  intro Hin. apply Hn. apply in_map_iff in Hin. destruct Hin as (z & Ez & Hz). apply filter_In in Hz.
+  apply in_map_iff. exists z. split; [exact Ez|exact (proj1 Hz)].
+Qed.
+
+(** facts about the instruction of column [n] *)
+Lemma plan_col_facts n : (n < length ideal)%nat ->
+  let x := nth n (dp_instr p) dinstr in
+  In x (dp_instr p) /\ i_col x = n /\ length (i_vols x) = tw_R a /\ (n < g)%nat /\
+  vm_of p x = nth n vmax 0 /\ i_src x = psrc p n.
+Proof.
+  intros Hn x.
+  destruct (proj1 (c14_complete ideal stock vmax mt) p Hplan) as (Hv & L1 & _ & _ & Hcol).
+  split; [apply nth_In; rewrite L1; exact Hn|]. split; [exact (Hcol n Hn)|].
+  split; [exact (proj1 (c14_shape _ _ _ _ _ _ Hplan Hrect n Hn))|]. split; [unfold g; lia|].
+  split; [unfold vm_of, x; rewrite (Hcol n Hn), Hv; reflexivity|reflexivity].
+Qed.
+
+Lemma NoDup_cols : NoDup (map i_col (dp_instr p)).
+Proof.
+  destruct (proj1 (c14_complete ideal stock vmax mt) p Hplan) as (_ & L1 & _ & _ & Hcol).
+  assert (E : map i_col (dp_instr p) = seq 0 (length (dp_instr p))).
+  { apply (nth_ext _ _ 0%nat 0%nat); [rewrite map_length, seq_length; reflexivity|].
+    intros m Hm. rewrite map_length in Hm. rewrite (nth_map_lt _ _ dinstr) by exact Hm.
+    rewrite seq_nth by exact Hm. apply Hcol. rewrite <- L1. exact Hm. }
+  rewrite E. apply seq_NoDup.
+Qed.
+
+Lemma fed_facts n j : (n < length ideal)%nat -> In j (filter (feeds n) (dp_instr p)) ->
+  (i_col j < g)%nat /\ i_col j <> n /\ length (i_vols j) = tw_R a /\
+  (i_col j < length ideal)%nat /\ psrc p (i_col j) = Some n /\ nth (i_col j) (dp_instr p) dinstr = j.
+Proof.
+  intros Hn Hj. destruct (c14_serial_later _ _ _ _ _ _ _ Hplan Hj) as (Hsrc & Hlt & Hlen & Hnth).
+  split; [unfold g; lia|]. split; [lia|].
+  split; [rewrite <- Hnth; exact (proj1 (c14_shape _ _ _ _ _ _ Hplan Hrect _ Hlen))|].
+  split; [exact Hlen|]. split; [unfold psrc; rewrite Hnth; exact Hsrc|exact Hnth].
+Qed.
+
+Lemma fed_member n c : (n < length ideal)%nat -> (c < length ideal)%nat -> psrc p c = Some n ->
+  In (nth c (dp_instr p) dinstr) (filter (feeds n) (dp_instr p)).
+Proof.
+  intros Hn Hc Hsrc. destruct (proj1 (c14_complete ideal stock vmax mt) p Hplan) as (_ & L1 & _).
+  apply filter_In. split; [apply nth_In; rewrite L1; exact Hc|].
+  unfold feeds. unfold psrc in Hsrc. rewrite Hsrc. apply Nat.eqb_refl.
+Qed.
+
+
+(** phase 1: the column is filled from its source (stock trough, or nothing to do) *)
+Lemma phase_stock s s1 n : (n < length ideal)%nat ->
+  run_ops s (stock_part a gs (nth n (dp_instr p) dinstr)) = (s1, None) ->
+  Good s -> SF s == 1 -> DF s == 0 ->
+  (psrc p n = None -> Empty s n) -> (psrc p n <> None -> Fed s n) ->
+  Good s1 /\ SF s1 == 1 /\ DF s1 == 0 /\ Fed s1 n /\
+  (forall c, (c < g)%nat -> c <> n -> Same s s1 c).
+Proof.
+  intros Hn H HG HS HD HE HF.
+  destruct (plan_col_facts n Hn) as (Hin & Hcol & Hlen & Hng & Hvm & Hsrc).
+  set (x := nth n (dp_instr p) dinstr) in *.
+  unfold stock_part in H. destruct (i_src x) as [k0|] eqn:Esrc.
+  - cbn [run_ops] in H. injection H as <-.
+    split; [exact HG|]. split; [exact HS|]. split; [exact HD|].
+    split; [apply HF; rewrite <- Hsrc; discriminate|]. intros c _ _. apply Same_refl.
+  - cbn [run_ops] in H.
+    destruct (step s (stock_op a gs x)) as [sa [e|]] eqn:E1; [discriminate|].
+    destruct (step sa OCommit) as [sb [e|]] eqn:E2; [discriminate|]. injection H as <-.
+    unfold stock_op in E1. cbn [step] in E1. rewrite Hcol in E1.
+    pose proof HG as (_ & _ & _ & _ & HSt & _).
+    destruct (trough_col_effect s sa (tw_stock a) St0 vs (tw_stock_column a) cyc_s n (map inject_Z (i_vols x))
+                _ _ _ E1 HG stock_ne_pl HSt HvS (fun w Hw => cycle_wells_In _ _ _ Hw) cyc_s_length
+                ltac:(rewrite map_length; exact Hlen) Hng)
+      as (HGa & Hfr & HPV & HPF & Hamt).
+    destruct (commit_same _ _ E2 HGa) as (HGb & Hsb).
+    destruct (acc_ext _ _ Hsb) as (Hacc & HaccS & HaccD).
+    destruct (good_lengths s HG) as (_ & Hls & Hld).
+    split; [exact HGb|].
+    split; [rewrite HaccS; unfold SF; rewrite (Hfr _ _ stock_ne_pl Hls); exact HS|].
+    split; [rewrite HaccD; unfold DF; rewrite (Hfr _ _ dil_ne_pl Hld); exact HD|].
+    split.
+    + intros r Hr. rewrite (proj1 (Hacc r n)), (proj2 (Hacc r n)).
+      pose proof (HE ltac:(rewrite <- Hsrc; reflexivity) r Hr) as He.
+      rewrite (Hamt r Hr), (HPV r n Hr Hng), Nat.eqb_refl, nth_inject, He.
+      fold (SF s). rewrite HS. unfold srcconc. rewrite <- Hsrc. unfold Vq, pvol. fold x. split; ring.
+    + intros c Hc Hne r Hr. rewrite (proj1 (Hacc r c)), (proj2 (Hacc r c)).
+      rewrite (HPV r c Hr Hc), (HPF r c Hr Hc Hne).
+      destruct (Nat.eqb_spec n c) as [E|_]; [congruence|]. split; [ring|reflexivity].
+Qed.
+
+(** phase 2: the column is filled up with diluent *)
+Lemma phase_dilute s s2 n : (n < length ideal)%nat -> ~ nth n vmax 0 == 0 ->
+  run_ops s (dilute_part a p gd (nth n (dp_instr p) dinstr)) = (s2, None) ->
+  Good s -> SF s == 1 -> DF s == 0 -> Fed s n ->
+  Good s2 /\ SF s2 == 1 /\ DF s2 == 0 /\ Done s2 n /\
+  (forall c, (c < g)%nat -> c <> n -> Same s s2 c).
+Proof.
+  intros Hn Hvmnz H HG HS HD HF.
+  destruct (plan_col_facts n Hn) as (Hin & Hcol & Hlen & Hng & Hvm & Hsrc).
+  set (x := nth n (dp_instr p) dinstr) in *.
+  unfold dilute_part in H. cbn [run_ops] in H.
+  destruct (step s (dilute_op a p gd x)) as [sa [e|]] eqn:E1; [discriminate|].
+  destruct (step sa OCommit) as [sb [e|]] eqn:E2; [discriminate|]. injection H as <-.
+  unfold dilute_op in E1. cbn [step] in E1. rewrite Hcol in E1.
+  pose proof HG as (_ & _ & _ & _ & _ & HDl).
+  destruct (trough_col_effect s sa (tw_diluent a) D0 vd (tw_diluent_column a) cyc_d n
+              (map (fun v => Qred (vm_of p x - v)) (map inject_Z (i_vols x)))
+              _ _ _ E1 HG dil_ne_pl HDl HvD (fun w Hw => cycle_wells_In _ _ _ Hw) cyc_d_length
+              ltac:(rewrite !map_length; exact Hlen) Hng)
+    as (HGa & Hfr & HPV & HPF & Hamt).
+  destruct (commit_same _ _ E2 HGa) as (HGb & Hsb).
+  destruct (acc_ext _ _ Hsb) as (Hacc & HaccS & HaccD).
+  destruct (good_lengths s HG) as (_ & Hls & Hld).
+  split; [exact HGb|].
+  split; [rewrite HaccS; unfold SF; rewrite (Hfr _ _ stock_ne_pl Hls); exact HS|].
+  split; [rewrite HaccD; unfold DF; rewrite (Hfr _ _ dil_ne_pl Hld); exact HD|].
+  split.
+  - intros r Hr. rewrite (proj2 (Hacc r n)).
+    destruct (HF r Hr) as (F1 & F2).
+    assert (EW : nth r (map (fun v => Qred (vm_of p x - v)) (map inject_Z (i_vols x))) 0 == nth n vmax 0 - Vq n r).
+    { rewrite (nth_map_lt _ _ 0) by (rewrite map_length, Hlen; exact Hr).
+      rewrite Qred_correct, nth_inject, Hvm. unfold Vq, pvol. fold x. reflexivity. }
+    pose proof (HPV r n Hr Hng) as Hv2. rewrite Nat.eqb_refl, EW, F1 in Hv2.
+    pose proof (Hamt r Hr) as Ha2. rewrite EW in Ha2. fold (DF s) in Ha2. rewrite HD in Ha2.
+    (* vmax * (fraction * stock) == V * srcconc, and the same for the reported concentration *)
+    assert (Hlhs : nth n vmax 0 * (PF sa r n * stock) == Vq n r * srcconc n r).
+    { rewrite <- F2. assert (Hvv : PV sa r n == nth n vmax 0) by (rewrite Hv2; ring).
+      rewrite <- Hvv. setoid_replace (PV sa r n * (PF sa r n * stock)) with (PV sa r n * PF sa r n * stock) by ring.
+      rewrite Ha2. ring. }
+    assert (Hrhs : nth n vmax 0 * pconc p n r == Vq n r * srcconc n r).
+    { pose proof (c14_x ideal stock vmax mt p (tw_R a) Hplan Hrect n r Hn Hr) as Hx.
+      unfold srcconc, Vq. destruct (psrc p n) as [k0|].
+      - destruct Hx as (_ & Hx). rewrite Hx. field. exact Hvmnz.
+      - rewrite Hx. field. exact Hvmnz. }
+    apply (Qmult_inj_l _ _ (nth n vmax 0) Hvmnz). rewrite Hlhs, Hrhs. reflexivity.
+  - intros c Hc Hne r Hr. rewrite (proj1 (Hacc r c)), (proj2 (Hacc r c)).
+    rewrite (HPV r c Hr Hc), (HPF r c Hr Hc Hne).
+    destruct (Nat.eqb_spec n c) as [E|_]; [congruence|]. split; [ring|reflexivity].
+Qed.
+
+
+(** phase 3: mixing changes nothing *)
+Lemma phase_mix s s3 wm x :
+  run_ops s (mix_part a p wm x) = (s3, None) -> Good s -> Good s3 /\ AllSame s s3.
+Proof.
+  intros H HG. unfold mix_part in H. destruct (needs_mix a p x).
+  - unfold mix_op in H. exact (mix_ops_effect x _ _ _ _ _ _ H HG).
+  - cbn [run_ops] in H. injection H as <-. split; [exact HG|apply AllSame_refl].
+Qed.
+
+Lemma AllSame_SD s s' : Good s -> AllSame s s' -> SF s' == SF s /\ DF s' == DF s.
+Proof.
+  intros HG (_ & H). destruct (good_lengths s HG) as (_ & Hls & Hld). unfold SF, DF.
+  split; [exact (proj2 (H _ _ Hls))|exact (proj2 (H _ _ Hld))].
+Qed.
+
+(** phase 4: the columns prepared from column [n] receive their volumes *)
+Lemma phase_serial s s4 n : (n < length ideal)%nat ->
+  run_ops s (serial_part a p (nth n (dp_instr p) dinstr)) = (s4, None) ->
+  Good s -> Done s n ->
+  (forall c, (c < length ideal)%nat -> psrc p c = Some n -> Empty s c) ->
+  Good s4 /\ SF s4 = SF s /\ DF s4 = DF s /\ Done s4 n /\
+  (forall c, (c < length ideal)%nat -> psrc p c = Some n -> Fed s4 c) /\
+  (forall c, (c < length ideal)%nat -> c <> n -> psrc p c <> Some n -> Same s s4 c).
+Proof.
+  intros Hn H HG HDn HE.
+  destruct (plan_col_facts n Hn) as (Hin & Hcol & Hlen & Hng & Hvm & Hsrc).
+  set (x := nth n (dp_instr p) dinstr) in *.
+  unfold serial_part in H. rewrite Hcol in H.
+  destruct (serial_ops_effect x _ _ _ H HG ltac:(rewrite Hcol; exact Hng)) as (HG4 & HS4 & HD4 & HPF & HPV & Hfed).
+  { intros j Hj. destruct (fed_facts n j Hn Hj) as (F1 & F2 & F3 & _). rewrite Hcol. auto. }
+  { apply NoDup_map_filter. exact NoDup_cols. }
+  assert (Hnotin : forall c, (c < length ideal)%nat -> psrc p c <> Some n ->
+                     ~ In c (map i_col (filter (feeds n) (dp_instr p)))).
+  { intros c Hc Hns Hinc. apply in_map_iff in Hinc. destruct Hinc as (j & Ej & Hj).
+    destruct (fed_facts n j Hn Hj) as (_ & _ & _ & _ & Hp & _). rewrite Ej in Hp. exact (Hns Hp). }
+  assert (Hnn : psrc p n <> Some n).
+  { intro E. pose proof (c14_x ideal stock vmax mt p (tw_R a) Hplan Hrect n) as Hx.
+    destruct (c14_order _ _ _ _ _ Hplan) as (n1 & _ & Hord).
+    destruct (Hord n Hn) as [(_ & Hs & _)|(_ & k0 & Hk & Hs & _)]; rewrite E in Hs; [discriminate|].
+    injection Hs as <-. lia. }
+  split; [exact HG4|]. split; [exact HS4|]. split; [exact HD4|]. split; [|split].
+  - intros r Hr. rewrite (HPF r n Hr Hng (Hnotin n Hn Hnn)). exact (HDn r Hr).
+  - intros c Hc Hsc r Hr.
+    pose proof (fed_member n c Hn Hc Hsc) as Hj. set (j := nth c (dp_instr p) dinstr) in *.
+    destruct (fed_facts n j Hn Hj) as (_ & _ & _ & _ & _ & Hnth).
+    assert (Ecj : i_col j = c).
+    { destruct (proj1 (c14_complete ideal stock vmax mt) p Hplan) as (_ & _ & _ & _ & Hc0). exact (Hc0 c Hc). }
+    destruct (Hfed j Hj r Hr) as (F1 & F2). rewrite Ecj in F1, F2. rewrite Hcol in F2.
+    pose proof (HE c Hc Hsc r Hr) as He. rewrite He in F1, F2.
+    unfold Vq, pvol. fold j. split; [rewrite F1; ring|].
+    rewrite F2. unfold srcconc. rewrite Hsc.
+    setoid_replace ((0 * PF s r c + inject_Z (nth r (i_vols j) 0%Z) * PF s r n) * stock)
+      with (inject_Z (nth r (i_vols j) 0%Z) * (PF s r n * stock)) by ring.
+    rewrite (HDn r Hr). reflexivity.
+  - intros c Hc Hne Hns r Hr.
+    assert (Hcg : (c < g)%nat) by (unfold g; lia).
+    rewrite (HPF r c Hr Hcg (Hnotin c Hc Hns)).
+    rewrite (HPV r c Hr Hcg ltac:(rewrite Hcol; exact Hne) (Hnotin c Hc Hns)). split; reflexivity.
+Qed.
+
+(** phase 5: the transfer to the destination plate takes liquid away, nothing else *)
+Lemma phase_dest s s5 n : (n < length ideal)%nat ->
+  run_ops s (dest_part a (nth n (dp_instr p) dinstr)) = (s5, None) -> Good s ->
+  Good s5 /\ SF s5 = SF s /\ DF s5 = DF s /\
+  (forall r c, (r < tw_R a)%nat -> (c < g)%nat -> PF s5 r c = PF s r c) /\
+  (forall r c, (r < tw_R a)%nat -> (c < g)%nat -> c <> n -> PV s5 r c == PV s r c).
+Proof.
+  intros Hn H HG.
+  destruct (plan_col_facts n Hn) as (Hin & Hcol & Hlen & Hng & Hvm & Hsrc).
+  set (x := nth n (dp_instr p) dinstr) in *.
+  revert H. unfold dest_part. remember (tw_dest a) as od eqn:Ed in |- *. destruct od as [d|]; intro H.
+  - cbn [run_ops] in H.
+    destruct (step s (dest_op a x d)) as [sa [e|]] eqn:E1; [discriminate|].
+    destruct (step sa OCommit) as [sb [e|]] eqn:E2; [discriminate|]. injection H as <-.
+    unfold dest_op in E1. cbn [step] in E1. rewrite Hcol in E1.
+    destruct (Hdest d (eq_sym Ed)) as (Hd1 & Hd2 & Hd3).
+    destruct (dest_effect _ _ n d _ _ _ _ E1 HG Hd1 Hng) as (HGa & Hfr & HPV).
+    destruct (commit_same _ _ E2 HGa) as (HGb & Hsb).
+    destruct (acc_ext _ _ Hsb) as (Hacc & HaccS & HaccD).
+    destruct (good_lengths s HG) as (Hlp & Hls & Hld).
+    split; [exact HGb|].
+    split; [rewrite HaccS; unfold SF; apply Hfr; [congruence|exact Hls]|].
+    split; [rewrite HaccD; unfold DF; apply Hfr; [congruence|exact Hld]|].
+    split.
+    + intros r c Hr Hc. rewrite (proj2 (Hacc r c)). unfold PF. apply Hfr; [|exact Hlp].
+      intro E. apply Hd1. symmetry. exact E.
+    + intros r c Hr Hc Hne. rewrite (proj1 (Hacc r c)), (HPV r c Hr Hc).
+      destruct (Nat.eqb_spec n c) as [E|_]; [congruence|]. ring.
+  - cbn [run_ops] in H. injection H as <-.
+    split; [exact HG|]. split; [reflexivity|]. split; [reflexivity|]. split; intros; reflexivity.
+Qed.
+
+
+Lemma psrc_lt c k0 : (c < length ideal)%nat -> psrc p c = Some k0 -> (k0 < c)%nat.
+Proof.
+  intros Hc Hs. destruct (c14_order _ _ _ _ _ Hplan) as (n1 & _ & Hord).
+  destruct (Hord c Hc) as [(_ & Hs' & _)|(_ & k1 & Hk & Hs' & _)]; rewrite Hs in Hs'; [discriminate|].
+  injection Hs' as <-. exact Hk.
+Qed.
+
+(** all operations of the instruction of column [n] *)
+Lemma instr_effect s s' wm n :
+  (n < length ideal)%nat -> ~ nth n vmax 0 == 0 ->
+  run_ops s (instr_ops a p wm gs gd (nth n (dp_instr p) dinstr)) = (s', None) ->
+  Good s -> SF s == 1 -> DF s == 0 ->
+  (psrc p n = None -> Empty s n) -> (psrc p n <> None -> Fed s n) ->
+  (forall c, (c < length ideal)%nat -> psrc p c = Some n -> Empty s c) ->
+  Good s' /\ SF s' == 1 /\ DF s' == 0 /\ Done s' n /\
+  (forall c, (c < length ideal)%nat -> psrc p c = Some n -> Fed s' c) /\
+  (forall c, (c < length ideal)%nat -> c <> n -> psrc p c <> Some n -> Same s s' c).
+Proof.
+  intros Hn Hvm H HG HS HD HE HF HEf.
+  destruct (plan_col_facts n Hn) as (_ & _ & _ & Hng & _).
+  rewrite c14_exec_structure, run_ops_app in H.
+  destruct (run_ops s (stock_part a gs (nth n (dp_instr p) dinstr))) as [s1 [e|]] eqn:E1; [discriminate|].
+  rewrite run_ops_app in H.
+  destruct (run_ops s1 (dilute_part a p gd (nth n (dp_instr p) dinstr))) as [s2 [e|]] eqn:E2; [discriminate|].
+  rewrite run_ops_app in H.
+  destruct (run_ops s2 (mix_part a p wm (nth n (dp_instr p) dinstr))) as [s3 [e|]] eqn:E3; [discriminate|].
+  rewrite run_ops_app in H.
+  destruct (run_ops s3 (serial_part a p (nth n (dp_instr p) dinstr))) as [s4 [e|]] eqn:E4; [discriminate|].
+  destruct (phase_stock _ _ n Hn E1 HG HS HD HE HF) as (HG1 & HS1 & HD1 & HF1 & Hsame1).
+  destruct (phase_dilute _ _ n Hn Hvm E2 HG1 HS1 HD1 HF1) as (HG2 & HS2 & HD2 & HDn2 & Hsame2).
+  destruct (phase_mix _ _ _ _ E3 HG2) as (HG3 & Hall3).
+  destruct (AllSame_SD _ _ HG2 Hall3) as (HS3 & HD3).
+  assert (Hother3 : forall c, (c < g)%nat -> c <> n -> Same s s3 c).
+  { intros c Hc Hne. apply (Same_trans s s1); [exact (Hsame1 c Hc Hne)|].
+    apply (Same_trans s1 s2); [exact (Hsame2 c Hc Hne)|exact (AllSame_Same _ _ c HG2 Hall3)]. }
+  assert (Hcg : forall c, (c < length ideal)%nat -> (c < g)%nat) by (intros c Hc; unfold g; lia).
+  assert (Hfedne : forall c, (c < length ideal)%nat -> psrc p c = Some n -> c <> n).
+  { intros c Hc Hs E. subst c. pose proof (psrc_lt n n Hn Hs). lia. }
+  destruct (phase_serial _ _ n Hn E4 HG3 (Same_Done _ _ n (AllSame_Same _ _ n HG2 Hall3) HDn2))
+    as (HG4 & HS4 & HD4 & HDn4 & Hfed4 & Hsame4).
+  { intros c Hc Hs. exact (Same_Empty _ _ c (Hother3 c (Hcg c Hc) (Hfedne c Hc Hs)) (HEf c Hc Hs)). }
+  destruct (phase_dest _ _ n Hn H HG4) as (HG5 & HS5 & HD5 & HPF5 & HPV5).
+  assert (Hsame5 : forall c, (c < g)%nat -> c <> n -> Same s4 s' c).
+  { intros c Hc Hne r Hr. rewrite (HPF5 r c Hr Hc), (HPV5 r c Hr Hc Hne). split; reflexivity. }
+  split; [exact HG5|].
+  split; [rewrite HS5, HS4, HS3; exact HS2|]. split; [rewrite HD5, HD4, HD3; exact HD2|].
+  split; [|split].
+  - intros r Hr. rewrite (HPF5 r n Hr Hng). exact (HDn4 r Hr).
+  - intros c Hc Hs. exact (Same_Fed _ _ c (Hsame5 c (Hcg c Hc) (Hfedne c Hc Hs)) (Hfed4 c Hc Hs)).
+  - intros c Hc Hne Hns. apply (Same_trans s s3); [exact (Hother3 c (Hcg c Hc) Hne)|].
+    apply (Same_trans s3 s4); [exact (Hsame4 c Hc Hne Hns)|exact (Hsame5 c (Hcg c Hc) Hne)].
+Qed.
+
+(** state of the plate when the instructions of columns < n have been executed *)
+Definition Inv (s : state) (n : nat) : Prop :=
+  SF s == 1 /\ DF s == 0 /\
+  (forall c, (c < n)%nat -> (c < length ideal)%nat -> Done s c) /\
+  (forall c, (n <= c)%nat -> (c < length ideal)%nat ->
+     match psrc p c with
+     | Some k0 => if (k0 <? n)%nat then Fed s c else Empty s c
+     | None => Empty s c
+     end).
+
+Lemma skipn_nth_cons {A} (d : A) (l : list A) : forall n, (n < length l)%nat ->
+  skipn n l = nth n l d :: skipn (S n) l.
+Proof.
+  induction l as [|y l IH]; intros n Hn; [cbn [length] in Hn; lia|].
+  destruct n as [|n]; [reflexivity|]. cbn [skipn nth]. apply IH. cbn [length] in Hn. lia.
+Qed.
+
+Lemma plan_effect : forall m n wms s s',
+  (n + m = length ideal)%nat -> length wms = m ->
+  (forall c, (c < length ideal)%nat -> ~ nth c vmax 0 == 0) ->
+  run_ops s (plan_ops a p gs gd (skipn n (dp_instr p)) wms) = (s', None) ->
+  Good s -> Inv s n -> Good s' /\ Inv s' (length ideal).
+Proof.
+  destruct (proj1 (c14_complete ideal stock vmax mt) p Hplan) as (_ & L1 & _).
+  induction m as [|m IH]; intros n wms s s' Hnm Lw Hvm H HG HInv.
+  - assert (n = length ideal) by lia. subst n.
+    rewrite skipn_all2 in H by lia. unfold plan_ops in H. cbn [zip flat_map run_ops] in H.
+    injection H as <-. split; assumption.
+  - assert (Hn : (n < length ideal)%nat) by lia.
+    rewrite (skipn_nth_cons dinstr) in H by (rewrite L1; exact Hn).
+    destruct wms as [|wm wms]; [discriminate|]. cbn [length] in Lw.
+    unfold plan_ops in H. cbn [zip flat_map fst snd] in H. fold (plan_ops a p gs gd (skipn (S n) (dp_instr p)) wms) in H.
+    rewrite run_ops_app in H.
+    destruct (run_ops s (instr_ops a p wm gs gd (nth n (dp_instr p) dinstr))) as [s1 [e|]] eqn:E1; [discriminate|].
+    destruct HInv as (HS & HD & HDone & Hrest).
+    destruct (instr_effect _ _ _ n Hn (Hvm n Hn) E1 HG HS HD) as (HG1 & HS1 & HD1 & HDn & Hfed & Hsame).
+    { intro Hs. pose proof (Hrest n (le_n n) Hn) as Hr. rewrite Hs in Hr. exact Hr. }
+    { intro Hs. pose proof (Hrest n (le_n n) Hn) as Hr. destruct (psrc p n) as [k0|] eqn:Es; [|congruence].
+      pose proof (psrc_lt n k0 Hn Es) as Hk. apply Nat.ltb_lt in Hk. rewrite Hk in Hr. exact Hr. }
+    { intros c Hc Hs. pose proof (psrc_lt c n Hc Hs) as Hlt.
+      pose proof (Hrest c ltac:(lia) Hc) as Hr. rewrite Hs, Nat.ltb_irrefl in Hr. exact Hr. }
+    apply (IH (S n) wms s1 s'); [lia|lia|exact Hvm|exact H|exact HG1|].
+    split; [exact HS1|]. split; [exact HD1|]. split.
+    + intros c Hc Hcl. destruct (Nat.eq_dec c n) as [->|Hne]; [exact HDn|].
+      apply (Same_Done s s1 c); [|apply HDone; [lia|exact Hcl]].
+      apply Hsame; [exact Hcl|exact Hne|]. intro Hs. pose proof (psrc_lt c n Hcl Hs). lia.
+    + intros c Hc Hcl. pose proof (Hrest c ltac:(lia) Hcl) as Hr.
+      destruct (psrc p c) as [k0|] eqn:Es.
+      * destruct (Nat.eq_dec k0 n) as [->|Hkn].
+        -- assert (E : (n <? S n)%nat = true) by (apply Nat.ltb_lt; lia). rewrite E. exact (Hfed c Hcl Es).
+        -- assert (Hss : Same s s1 c).
+           { apply Hsame; [exact Hcl|lia|]. intro E. rewrite Es in E. injection E as E. exact (Hkn E). }
+           destruct (k0 <? n)%nat eqn:Ek.
+           ++ apply Nat.ltb_lt in Ek. assert (E : (k0 <? S n)%nat = true) by (apply Nat.ltb_lt; lia).
+              rewrite E. exact (Same_Fed _ _ c Hss Hr).
+           ++ apply Nat.ltb_ge in Ek. assert (E : (k0 <? S n)%nat = false) by (apply Nat.ltb_ge; lia).
+              rewrite E. exact (Same_Empty _ _ c Hss Hr).
+      * apply (Same_Empty s s1 c); [|exact Hr]. apply Hsame; [exact Hcl|lia|]. rewrite Es. discriminate.
+Qed.
+
+End Concentration.
